@@ -4,13 +4,10 @@ from __future__ import annotations
 import ast
 import itertools
 
-from sa import pat, source
-from sa.cfg import cfg_of, guards, holds, negate
+from sa import source
+from sa.cfg import cfg_of
 from sa.minieval import CannotEval, Record, ev
-from sa.tables import Outcome
-from sa.source import AnchorMissing, arg_of, bind_args, dotted, is_self_attr, last_attr, local_defs, params_of, short, u, walk_body
-from sa.sym import comparison, NotRational, oriented, parse_expr, rat_equal, ratfun, UnknownAtom
-from sa.tables import decide, Unsupported
+from sa.source import AnchorMissing, dotted, is_self_attr, last_attr, local_defs, params_of, short, u, walk_body
 
 _D = "esrally/driver/driver.py"
 _S = "esrally/driver/scheduler.py"
@@ -31,106 +28,989 @@ def _param(f, i):
     return ps[i]
 
 
-def _is_none(n):
-    return isinstance(n, ast.Constant) and n.value is None  # (source.is_const(n, None) accepts any constant)
+def _regex_literal(v):
+    """the pattern text of `re.compile(<literal>[, flags])` / a bare string literal, else None"""
+    if isinstance(v, ast.Call) and (dotted(v.func) or "").split(".")[-1] == "compile" and v.args and isinstance(v.args[0], ast.Constant) and isinstance(v.args[0].value, str):
+        return v.args[0].value
+    if isinstance(v, ast.Constant) and isinstance(v.value, str) and "(?P<" in v.value:
+        return v.value
+    return None
 
 
-def _single_return(f):
-    rets = [n for n in walk_body(f) if isinstance(n, ast.Return)]
-    return rets[0].value if len(rets) == 1 else None
+def _throughput_pattern_sites(trk_mod):
+    """Role: the regular expression(s) Task.target_throughput matches a string target against - a class-level or module-level constant (whatever its name) that the property or a
+    helper of the class it calls refers to, or a pattern literal written inside it. [(node, pattern text)]"""
+    TKc = trk_mod.cls("Task")
+    meths = trk_mod.methods(TKc)
+    tt = meths.get("target_throughput")
+    if tt is None:
+        raise AnchorMissing("Task.target_throughput")
+    fns, todo = [], [tt]
+    while todo:
+        f = todo.pop()
+        if any(f is g for g in fns):
+            continue
+        fns.append(f)
+        for n in ast.walk(f):
+            if isinstance(n, ast.Call) and isinstance(n.func, ast.Attribute) and isinstance(n.func.value, ast.Name) and n.func.value.id in ("self", "cls", TKc.name) and n.func.attr in meths:
+                todo.append(meths[n.func.attr])
+    used = {n.attr for f in fns for n in ast.walk(f) if isinstance(n, ast.Attribute)} | {n.id for f in fns for n in ast.walk(f) if isinstance(n, ast.Name)}
+    sites = []
+    for st in list(TKc.body) + list(trk_mod.tree.body):
+        if isinstance(st, ast.Assign) and len(st.targets) == 1 and isinstance(st.targets[0], ast.Name) and st.targets[0].id in used and _regex_literal(st.value) is not None:
+            sites.append((st, _regex_literal(st.value)))
+    for f in fns:
+        for n in ast.walk(f):
+            if isinstance(n, ast.Call) and (dotted(n.func) or "").split(".")[0] == "re" and n.args and isinstance(n.args[0], ast.Constant) and isinstance(n.args[0].value, str):
+                sites.append((n, n.args[0].value))
+    return sites
 
 
 def throughput_pattern_rule(chk, rid, trk_mod):
-    """Task.THROUGHPUT_PATTERN, decided on the regex syntax tree (re._parser; nothing is matched): the pattern is exactly <value group> <one whitespace> <unit group> and the decimal
-    point with the fraction digits lies INSIDE the value group — shared with C10 (the loaded throughput target is the number written in the file)."""
+    """The pattern Task.target_throughput parses a string target with, decided on the regex syntax tree (re._parser; nothing is matched): the pattern is exactly
+    <value group> <one whitespace> <unit group> and the decimal point with the fraction digits lies INSIDE the value group — shared with C10 (the loaded throughput target is the
+    number written in the file). The pattern is located by role (the regex constant / literal the property refers to), not by its name; not found => inconclusive, never falsified."""
     TKc = trk_mod.cls("Task")
-    tpat = [n for n in TKc.body if isinstance(n, ast.Assign) and u(n.targets[0]) == "THROUGHPUT_PATTERN"]
-    # regex AST (re._parser): the pattern is exactly <value group> <one whitespace> <unit group>; the decimal point and the fraction digits are INSIDE the value group
-    ok = False
-    detail = ""
-    if tpat and isinstance(tpat[0].value, ast.Call) and tpat[0].value.args and isinstance(tpat[0].value.args[0], ast.Constant):
-        import re._parser as _rp  # the standard library's own regex parser; nothing is matched, the pattern's syntax tree is inspected
-        try:
-            tree = _rp.parse(tpat[0].value.args[0].value)
-            gi = tree.state.groupdict
-            items = list(tree)
-            names = {v: k for k, v in gi.items()}
-            top = [(str(op), names.get(av[0]) if str(op) == "SUBPATTERN" else None) for op, av in items]
-            shape = [t for t in top]
-            vgrp = next((av[3] for op, av in items if str(op) == "SUBPATTERN" and names.get(av[0]) == "value"), None)
+    sites = _throughput_pattern_sites(trk_mod)
+    if len(sites) != 1:
+        chk.unknown(rid, f"the regular expression Task.target_throughput parses a string target with: {len(sites)} candidate pattern literal(s) found (a class- or module-level "
+                    f"`re.compile(<literal>)` the property refers to, or a literal inside it)", TKc)
+        return
+    site, text = sites[0]
+    import re._parser as _rp  # the standard library's own regex parser; nothing is matched, the pattern's syntax tree is inspected
+    try:
+        tree = _rp.parse(text)
+    except Exception as e:  # noqa: BLE001 - a pattern the parser rejects is reported, not a crash
+        chk.ob(rid, "throughput pattern == <value incl. fraction> <space> <unit>: nothing of the number outside the value group", False, site, f"pattern not parseable: {e}",
+               key="esrally/track/track.py:Task.THROUGHPUT_PATTERN:value-group-covers-fraction")
+        return
+    items = list(tree)
+    names = {v: k for k, v in tree.state.groupdict.items()}
+    groups = [(av[0], av[3]) for op, av in items if str(op) == "SUBPATTERN"]
+    # roles by position: the first top-level group captures the value, the last one the unit (their names are an agreement between the pattern and its reader, checked by value in O5.6)
+    shape = [("group" if str(op) == "SUBPATTERN" else str(op)) for op, av in items]
 
-            def lits(sub):
-                out = set()
-                for op, av in sub:
-                    if str(op) == "LITERAL":
-                        out.add(chr(av))
-                    elif str(op) in ("SUBPATTERN",):
-                        out |= lits(av[3])
-                    elif str(op) in ("MAX_REPEAT", "MIN_REPEAT"):
-                        out |= lits(av[2])
-                    elif str(op) == "BRANCH":
-                        for alt in av[1]:
-                            out |= lits(alt)
-                return out
+    def lits(sub):
+        out = set()
+        for op, av in sub:
+            if str(op) == "LITERAL":
+                out.add(chr(av))
+            elif str(op) in ("SUBPATTERN",):
+                out |= lits(av[3])
+            elif str(op) in ("MAX_REPEAT", "MIN_REPEAT"):
+                out |= lits(av[2])
+            elif str(op) == "BRANCH":
+                for alt in av[1]:
+                    out |= lits(alt)
+        return out
 
-            exact = [n for _, n in shape] == ["value", None, "unit"] and shape[1][0] == "IN"
-            ok = exact and vgrp is not None and "." in lits(vgrp)
-            detail = f"top-level sequence: {[n or o for o, n in shape]}; literals inside the value group: {sorted(lits(vgrp)) if vgrp is not None else None}" + \
-                ("" if ok else " — part of the number lies outside the value group: '2.5 docs/s' is read as 2, '0.5 ops/s' as 0 (unthrottled)")
-        except Exception as e:  # noqa: BLE001 - a pattern the parser rejects is reported, not a crash
-            detail = f"pattern not parseable: {e}"
-    chk.ob(rid, "throughput pattern == <value incl. fraction> <space> <unit>: nothing of the number outside the value group", ok, tpat[0] if tpat else TKc, detail,
+    exact = shape == ["group", "IN", "group"] and len(groups) == 2
+    vgrp = groups[0][1] if groups else None
+    ok = exact and "." in lits(vgrp)
+    detail = f"top-level sequence: {[names.get(av[0], 'group') if str(op) == 'SUBPATTERN' else str(op) for op, av in items]}; literals inside the value group: {sorted(lits(vgrp)) if vgrp is not None else None}" + \
+        ("" if ok else " — part of the number lies outside the value group: '2.5 docs/s' is read as 2, '0.5 ops/s' as 0 (unthrottled)")
+    chk.ob(rid, "throughput pattern == <value incl. fraction> <space> <unit>: nothing of the number outside the value group", ok, site, detail,
            key="esrally/track/track.py:Task.THROUGHPUT_PATTERN:value-group-covers-fraction")
 
 
-def parallel_defaults_rule(chk, rid, repo):
-    """TrackSpecificationReader.parse_parallel hands the iteration / time-period defaults written on the parallel element to parse_task under the parameter of the SAME meaning
-    (four ints: a swap type-checks and only shows when the two values differ)."""
-    ldr = repo.module("esrally/track/loader.py")
-    chk.use(ldr)
-    SR = ldr.cls("TrackSpecificationReader")
-    pp, pt = ldr.methods(SR).get("parse_parallel"), ldr.methods(SR).get("parse_task")
-    if pp is None or pt is None:
-        raise AnchorMissing("TrackSpecificationReader.parse_parallel / parse_task")
-    calls = [c for c in source.calls_in(pp) if u(c.func) == "self.parse_task"]
-    if not calls:
-        raise AnchorMissing("self.parse_task(...) in parse_parallel")
-    b = source.bind_args(calls[0], pt)
-    d = local_defs(pp)
-    for param, key in (("default_warmup_iterations", "warmup-iterations"), ("default_iterations", "iterations"), ("default_warmup_time_period", "warmup-time-period"), ("default_time_period", "time-period")):
-        e = b.get(param)
-        txt = source.inline(e, d) if e is not None else ""
-        import re as _re
-        keys = set(_re.findall(r"'([a-z-]+)'", txt)) & {"warmup-iterations", "iterations", "warmup-time-period", "time-period", "ramp-up-time-period"}
-        chk.ob(rid, f"parallel default '{key}' -> parse_task({param}=...)", keys == {key}, calls[0], f"{param} is read from key(s) {sorted(keys)}", key=f"esrally/track/loader.py:parse_parallel:default:{param}")
-
-
 def timer_before_rampup_rule(chk, rid, drv, why):
-    """The schedule's progress timer (it decides warm-up vs. normal and the end of a time period) starts, unconditionally, before the ramp-up wait of the client."""
-    ex = _prop(drv, drv.cls("AsyncExecutor"), "__call__")
+    """The schedule's progress timer (it decides warm-up vs. normal and the end of a time period) starts before the ramp-up wait of the client - shared with C07.
+    Decided on values: AsyncExecutor.__call__ is walked on a virtual clock up to its first request (see _ExecutorRun) with a ramp-up wait of 4 s and of 0 s; the call that starts
+    the handle's timer must be made exactly once, at the client's start time (before any sleep). Role: the timer start = the method(s) of ScheduleHandle that call start() on one of
+    the handle's own attributes (the loop control), whatever they are called; nothing in the executor is located by name. Returns (executor function, its CFG)."""
+    AE, SH = drv.cls("AsyncExecutor"), drv.cls("ScheduleHandle")
+    ex = _prop(drv, AE, "__call__")
     ge = cfg_of(ex)
-    edefs = local_defs(ex)
-    sleeps = [n for n in walk_body(ex) if isinstance(n, ast.Await) and isinstance(n.value, ast.Call) and dotted(n.value.func) == "asyncio.sleep" and n.value.args
-              and "ramp_up_wait_time" in source.inline(n.value.args[0], edefs)]
-    starts = [n for n in walk_body(ex) if isinstance(n, ast.Call) and u(n.func) == "self.schedule_handle.start"]
-    loops_ = [n for n in walk_body(ex) if isinstance(n, ast.AsyncFor)]
-    if not sleeps or not starts or not loops_:
-        raise AnchorMissing("ramp-up sleep / schedule_handle.start() / request loop in AsyncExecutor.__call__")
-    sl, stt, lp = ge.node_of(sleeps[0]), ge.node_of(starts[0]), ge.node_of(loops_[0])
-    ok = ge.dominated_by_nodes(sl, [stt]) and not ge.path_exists(sl, stt) and not guards(starts[0])
-    chk.ob(rid, "progress timer started before the ramp-up wait", ok, starts[0], "" if ok else why)
-    return ex, ge, edefs, sleeps, starts, loops_, sl, stt, lp
+    starters = {m.name for m in drv.methods(SH).values() if any(isinstance(c, ast.Call) and isinstance(c.func, ast.Attribute) and c.func.attr == "start" and is_self_attr(c.func.value) for c in ast.walk(m))}
+    if not starters:
+        raise AnchorMissing("the method of ScheduleHandle that starts the progress control (self.<control>.start())")
+    try:
+        runs = [(w, _ExecutorRun(drv, w, 0.5)) for w in (4.0, 0)]
+    except CannotEval as e:
+        chk.unknown(rid, f"AsyncExecutor.__call__ is not evaluable on the virtual time line: {e}", ex)
+        return ex, ge
+    seen = [(w, [round(t - r.t0, 6) for a, t, _ in r.calls if a in starters], r) for w, r in runs]
+    if any(r.issued is None for _, _, r in seen) or not any(ts for _, ts, _ in seen):
+        chk.unknown(rid, "the walk of AsyncExecutor.__call__ up to its first request " + ("issues no request" if any(r.issued is None for _, _, r in seen) else
+                    f"never calls the handle's timer start ({sorted(starters)}); calls on the handle: {sorted({a for _, _, r in seen for a, _, _ in r.calls})}"), ex)
+        return ex, ge
+    ok = all(ts == [0.0] for _, ts, _ in seen)
+    chk.ob(rid, "progress timer started before the ramp-up wait", ok, ex,
+           "; ".join(f"ramp-up wait {w:g}s: timer started at start + {ts} s, first request issued at start + {r.issued - r.t0:g} s" for w, ts, r in seen) + ("" if ok else f": {why}"),
+           key=f"{_D}:AsyncExecutor.__call__:progress-timer-before-ramp-up-wait")
+    return ex, ge
+
+
+def ramp_up_placement_rule(chk, rid, drv):
+    """where the ramp-up wait sits in AsyncExecutor.__call__, decided on values (walk on the virtual clock up to the second request, see _ExecutorRun; requests due at offsets
+    0.5 s and 1 s, a request takes no time): it is taken ONCE, before the request loop - the sleep log holds exactly one sleep of the wait's length, before the first request -
+    and under no other condition than a non-zero wait: with a wait of 4 s the client sleeps exactly 4 s at its start, with a wait of 0 s it does not sleep for the ramp-up."""
+    ex = _prop(drv, drv.cls("AsyncExecutor"), "__call__")
+    try:
+        r4, r0 = _ExecutorRun(drv, 4.0, 0.5), _ExecutorRun(drv, 0, 0.5)
+    except CannotEval as e:
+        chk.unknown(rid, f"AsyncExecutor.__call__ is not evaluable on the virtual time line: {e}", ex)
+        return
+    if len(r4.issues) < 2 or len(r0.issues) < 2:
+        chk.unknown(rid, f"the walk of AsyncExecutor.__call__ does not reach a second request on the virtual time line ({len(r4.issues)} / {len(r0.issues)} issued)", ex)
+        return
+    # the wait is taken once: up to the second request exactly one sleep has the length of the wait (the sleep-untils of requests due 0.5 s apart are shorter), and it lies before
+    # the first request (read off the sleep log, so that a wrongly anchored schedule - overdue requests - is not reported here as well)
+    waits = [(round(t - r4.t0, 6), d) for t, d in r4.sleeps if abs(d - 4.0) < 1e-9]
+    chk.ob(rid, "ramp-up wait before the main loop", len(waits) == 1 and r4.t0 + waits[0][0] < r4.issues[0] + 1e-9 and not [d for t, d in r0.sleeps if d > 0.5 + 1e-9], ex,
+           f"ramp-up wait 4 s, requests due 0.5 s apart: sleeps up to the second request (offset from start, duration) {[(round(t - r4.t0, 6), round(d, 6)) for t, d in r4.sleeps]}, "
+           f"requests issued at start + {[round(x - r4.t0, 6) for x in r4.issues]} s: {len(waits)} sleep(s) of the wait's length (expected one, before the first request)")
+    pre4 = [d for t, d in r4.sleeps if abs(t - r4.t0) < 1e-9]
+    pre0 = [d for t, d in r0.sleeps if abs(t - r0.t0) < 1e-9 and abs(d - 0.5) > 1e-9]
+    ok = len(pre4) == 1 and abs(pre4[0] - 4.0) < 1e-9 and not [d for d in pre0 if d > 0]
+    chk.ob(rid, "ramp-up wait guarded only by a non-zero wait time", ok, ex, f"wait 4 s: sleeps at the client's start {pre4}; wait 0 s: ramp-up sleeps {pre0}")
 
 
 def partition_call_rule(chk, rid, drv):
-    """schedule_for partitions the task's parameter source with (task-local client index, the TASK's client count) — shared with C03 (slices must tile the corpus)."""
+    """schedule_for partitions the task's parameter source with (task-local client index, the TASK's client count) — shared with C02 / C03 (slices must tile the corpus).
+    Decided on values: schedule_for is walked by the local machine for an allocation that is client 1 of the 3 clients of its task and client 5 of the 8 clients of the schedule
+    element; the arguments that reach the call on the parameter source must be (1, 3) - whatever locals they pass through and whichever helper makes the call."""
     sfn = drv.func("schedule_for")
-    ta = _param(sfn, 0)
-    pc_ = [n for n in walk_body(sfn) if isinstance(n, ast.Call) and last_attr(n.func) == "partition"]
-    d = local_defs(sfn)
-    ok = len(pc_) == 1 and len(pc_[0].args) == 2 and source.inline(pc_[0].args[0], d) == f"{ta}.client_index_in_task" and source.inline(pc_[0].args[1], d) == f"{ta}.task.clients"
-    got = f"partition({source.inline(pc_[0].args[0], d)}, {source.inline(pc_[0].args[1], d)})" if pc_ and len(pc_[0].args) == 2 else ""
-    chk.ob(rid, "parameter source partitioned by (task-local client index, the task's own client count)", ok, pc_[0] if pc_ else sfn, got, key="esrally/driver/driver.py:schedule_for:partition")
+    try:
+        run_ = _ScheduleRun(drv, {"warmup_iterations": 3, "iterations": 7})
+    except CannotEval as e:
+        chk.unknown(rid, f"schedule_for is not evaluable on the representative allocation: {e}", sfn)
+        return
+    if not run_.partition:
+        chk.unknown(rid, "schedule_for makes no call on the parameter source it is given" + (f" (it raises {run_.error})" if run_.error else "") + ": the partitioning is not located", sfn)
+        return
+    nums = [[x for x in a if isinstance(x, int) and not isinstance(x, bool)] for _, a in run_.partition]
+    ok = len(run_.partition) == 1 and nums[0] == [1, 3] and len(run_.partition[0][1]) == 2
+    chk.ob(rid, "parameter source partitioned by (task-local client index, the task's own client count)", ok, sfn,
+           "client 1 of 3 of its task, client 5 of 8 of the schedule element: " + "; ".join(f"{n}({', '.join(repr(x) for x in a)})" for n, a in run_.partition) + " (expected (1, 3))",
+           key="esrally/driver/driver.py:schedule_for:partition")
+
+
+# ---- a small interpreter for EXTRACTED statements (local helper: sa/minieval.py evaluates pure expressions over immutable records only) ----------------------
+# Several rules below are decided on VALUES: the statements of a function of the analysed source are walked with representative inputs (objects with named fields whose
+# attributes the rule fixes), helper methods / functions / properties / local closures of the same module are followed, classes of the same module are instantiated by walking
+# their own __init__, everything else (loggers, other modules, runners) is an opaque object that can be passed around and called but never decides a branch. Nothing of the
+# repository is imported or executed; of the standard library only `re` (on pattern literals extracted from the source) and `numbers.Number` are consulted. A construct the
+# machine does not model raises CannotEval => the rule is inconclusive, never a verdict. A renamed local / attribute / parameter, an extracted helper, a guard clause, a merged
+# or split loop, a named constant are all invisible to a rule stated this way: only the values that reach the observed calls / fields count.
+import numbers as _numbers
+import re as _re_mod
+
+
+class _Stop(Exception):
+    """raised by a rule's hook: enough has been observed, end the simulation"""
+
+
+class _Ret(Exception):
+    def __init__(self, value):
+        self.value = value
+
+
+class _Rse(Exception):
+    """the analysed code raises: `value` is the exception object (an _Opaque whose label starts with the class name)"""
+
+    def __init__(self, value, node=None):
+        self.value, self.node = value, node
+
+    def name(self):
+        return getattr(self.value, "label", repr(self.value)).split("(")[0]
+
+
+class _Brk(Exception):
+    pass
+
+
+class _Cnt(Exception):
+    pass
+
+
+_MISSING = object()
+
+
+class _Sym:
+    """symbolic value with structural equality (e.g. the scheduled time sched.next(sched.next(0)))"""
+
+    def __init__(self, *parts):
+        self.parts = parts
+
+    def __eq__(self, o):
+        return isinstance(o, _Sym) and self.parts == o.parts
+
+    def __hash__(self):
+        return hash(("_Sym",) + tuple(repr(p) for p in self.parts))
+
+    def __repr__(self):
+        return f"{self.parts[0]}({', '.join(repr(p) for p in self.parts[1:])})"
+
+
+class _Opaque:
+    """an object the machine does not model: identity only. kind 'object' = something that exists (result of a call, a module, an unknown global);
+    kind 'attr' = an unknown attribute value of such an object (may be anything, also None: no comparison is decided on it)."""
+
+    def __init__(self, label, kind="object", args=(), kwargs=None):
+        self.label, self.kind, self.args, self.kwargs, self.attrs = label, kind, tuple(args), dict(kwargs or {}), {}
+
+    def __repr__(self):
+        return f"<{self.label}>"
+
+
+class _Obj:
+    """a mutable object with named fields; `cls` (a ClassDef of the analysed module) supplies methods / properties / class attributes, `on_load(attr)` / `on_call(attr, args, kwargs)`
+    let a rule give it behaviour (return _MISSING to fall through)."""
+
+    def __init__(self, label, cls=None, on_load=None, on_call=None, **fields):
+        self.label, self.cls, self.on_load, self.on_call, self.fields = label, cls, on_load, on_call, dict(fields)
+        self.ctor = {}  # parameter name -> value the object was constructed with (filled when the machine instantiates a class of the module)
+        self.ctor_pos = []
+
+    def __repr__(self):
+        return f"<{self.label}>"
+
+
+class _Fn:
+    def __init__(self, node, env=None, self_=None, static=False):
+        self.node, self.env, self.self_, self.static = node, env, self_, static
+
+
+class _Cls:
+    def __init__(self, node):
+        self.node = node
+
+
+class _NT:
+    """result of collections.namedtuple(name, fields) with literal fields: calling it gives an object with those fields"""
+
+    def __init__(self, name, fields):
+        self.name, self.fields = name, fields
+
+
+class _Builtin:
+    def __init__(self, name):
+        self.name = name
+
+
+class _Py:
+    """a whitelisted standard-library object (re.match, re.compile, numbers.Number, a bound method of a str / dict / re.Match value)"""
+
+    def __init__(self, obj):
+        self.obj = obj
+
+
+class _Env(dict):
+    def __init__(self, parent=None):
+        super().__init__()
+        self.parent = parent
+
+    def find(self, name):
+        e = self
+        while e is not None:
+            if name in e:
+                return e
+            e = e.parent
+        return None
+
+
+_CONCRETE = (str, int, float, bool, type(None), list, tuple, dict, set, frozenset, range, _re_mod.Pattern, _re_mod.Match)
+_TYPE_NAMES = {"str": str, "int": int, "float": float, "bool": bool, "dict": dict, "list": list, "tuple": tuple, "set": set, "bytes": bytes, "frozenset": frozenset}
+_BUILTINS = {"isinstance", "float", "int", "str", "bool", "len", "max", "min", "abs", "round", "hasattr", "getattr", "super", "range", "list", "tuple", "dict", "set", "sorted",
+             "sum", "any", "all", "repr", "enumerate", "zip", "print", "frozenset", "bytes", "type", "id", "callable", "iter", "next"}
+_PURE = {"float": float, "int": int, "len": len, "max": max, "min": min, "abs": abs, "round": round, "list": list, "tuple": tuple, "dict": dict, "set": set, "sorted": sorted,
+         "sum": sum, "any": any, "all": all, "bool": bool, "frozenset": frozenset, "range": range}
+_PY_MODULES = {"re": (_re_mod, {"match", "fullmatch", "search", "compile"}), "numbers": (_numbers, {"Number", "Integral", "Real"})}
+_PY_METHODS = {str: {"replace", "strip", "lstrip", "rstrip", "lower", "upper", "split", "rsplit", "partition", "startswith", "endswith", "format", "join", "isdigit", "casefold", "title"},
+               dict: {"get", "keys", "values", "items", "update", "pop", "setdefault", "copy"}, list: {"append", "extend", "index", "count", "copy", "pop"}, tuple: {"index", "count"},
+               _re_mod.Pattern: {"match", "fullmatch", "search"}, _re_mod.Match: {"group", "groups", "groupdict", "start", "end"}, set: {"add", "discard", "copy"},
+               float: {"is_integer"}, int: set()}
+_ARITH_OPS = {ast.Add: lambda a, b: a + b, ast.Sub: lambda a, b: a - b, ast.Mult: lambda a, b: a * b, ast.Div: lambda a, b: a / b, ast.FloorDiv: lambda a, b: a // b,
+              ast.Mod: lambda a, b: a % b, ast.Pow: lambda a, b: a ** b}
+_CMP_OPS = {ast.Lt: lambda a, b: a < b, ast.LtE: lambda a, b: a <= b, ast.Gt: lambda a, b: a > b, ast.GtE: lambda a, b: a >= b}
+
+
+def _concrete(v, depth=0):
+    if isinstance(v, (list, tuple, set, frozenset)):
+        return depth < 4 and all(_concrete(x, depth + 1) for x in v)
+    if isinstance(v, dict):
+        return depth < 4 and all(_concrete(k, depth + 1) and _concrete(x, depth + 1) for k, x in v.items())
+    return isinstance(v, _CONCRETE)
+
+
+class _Machine:
+    def __init__(self, mod, budget=20000, on_opaque_call=None, on_yield=None, on_await=None, overrides=None):
+        self.mod, self.budget, self.steps = mod, budget, 0
+        self.on_opaque_call, self.on_yield, self.on_await = on_opaque_call, on_yield, on_await
+        self.on_call = None  # optional observer of EVERY call the walk makes: on_call(callee, args, kwargs); may raise _Stop
+        self.overrides = dict(overrides or {})
+        self._globals = {}
+        self._resolving = set()
+        self.created = []  # every object the machine instantiated from a class of the module, in order
+        self.depth = 0
+        self.top = {}
+        for n in mod.tree.body:
+            if isinstance(n, (ast.FunctionDef, ast.AsyncFunctionDef, ast.ClassDef)):
+                self.top[n.name] = n
+            elif isinstance(n, ast.Assign) and len(n.targets) == 1 and isinstance(n.targets[0], ast.Name):
+                self.top[n.targets[0].id] = n
+
+    # -- names --------------------------------------------------------------------------------------------------------------------------------------------
+    def glob(self, name):
+        if name in self.overrides:
+            return self.overrides[name]
+        if name in self._globals:
+            return self._globals[name]
+        n = self.top.get(name)
+        if isinstance(n, (ast.FunctionDef, ast.AsyncFunctionDef)):
+            v = _Fn(n)
+        elif isinstance(n, ast.ClassDef):
+            v = _Cls(n)
+        elif isinstance(n, ast.Assign):
+            if name in self._resolving:
+                raise CannotEval(f"module-level name {name} is defined through itself")
+            self._resolving.add(name)
+            try:
+                v = self.ev(n.value, _Env())
+            finally:
+                self._resolving.discard(name)
+        elif name in self.mod.imports and self.mod.imports[name] in _PY_MODULES:
+            v = _Py(_PY_MODULES[self.mod.imports[name]][0])
+        elif name in self.mod.imports:
+            # labelled by what is imported, not by the local alias: `from time import perf_counter` / `import time as t` still read time.perf_counter; a module of the
+            # package keeps its short name (esrally.metrics -> metrics)
+            target = self.mod.imports[name]
+            v = _Opaque(target[len("esrally."):] if target.startswith("esrally.") else target)
+        elif name not in _BUILTINS:
+            v = _Opaque(name)
+        else:
+            v = _Builtin(name)
+        self._globals[name] = v
+        return v
+
+    def lookup(self, name, env):
+        e = env.find(name)
+        return e[name] if e is not None else self.glob(name)
+
+    # -- classes of the analysed module ---------------------------------------------------------------------------------------------------------------------
+    def mro(self, cls):
+        out, todo = [], [cls]
+        while todo and len(out) < 8:
+            c = todo.pop(0)
+            if any(c is x for x in out):
+                continue
+            out.append(c)
+            for b in c.bases:
+                bn = self.top.get(dotted(b) or "")
+                if isinstance(bn, ast.ClassDef):
+                    todo.append(bn)
+        return out
+
+    def class_member(self, cls, name):
+        for c in self.mro(cls):
+            for st in c.body:
+                if isinstance(st, (ast.FunctionDef, ast.AsyncFunctionDef)) and st.name == name:
+                    return st
+                if isinstance(st, ast.Assign) and any(isinstance(t, ast.Name) and t.id == name for t in st.targets):
+                    return st
+        return None
+
+    @staticmethod
+    def _decos(f):
+        return {(dotted(d) or "").split(".")[-1] for d in f.decorator_list}
+
+    def instantiate(self, c, args, kwargs, node=None):
+        base_names = {(dotted(b) or "").split(".")[-1] for k in self.mro(c.node) for b in k.bases}
+        obj = _Obj(c.node.name, cls=c.node)
+        self.created.append(obj)
+        init = self.class_member(c.node, "__init__")
+        if isinstance(init, (ast.FunctionDef, ast.AsyncFunctionDef)):
+            bound = self.bind(init, [obj] + list(args), kwargs, _Env())
+            obj.ctor = {k: v for k, v in bound.items() if v is not obj}
+            obj.ctor_pos = list(args)
+            self.call(_Fn(init, self_=obj), args, kwargs, node)
+            return obj
+        fields = [st.target.id for k in reversed(self.mro(c.node)) for st in k.body if isinstance(st, ast.AnnAssign) and isinstance(st.target, ast.Name)]
+        if fields and ("NamedTuple" in base_names or "dataclass" in self._decos(c.node)):
+            if len(args) > len(fields) or any(k not in fields for k in kwargs):
+                raise _Rse(_Opaque("TypeError(constructor arguments)"), node)
+            obj.fields.update(dict(zip(fields, args)))
+            obj.fields.update(kwargs)
+            obj.ctor, obj.ctor_pos = dict(obj.fields), list(args)
+            return obj
+        obj.ctor_pos = list(args)
+        return obj
+
+    # -- calls ------------------------------------------------------------------------------------------------------------------------------------------------
+    def bind(self, f, args, kwargs, env):
+        a = f.args
+        names = [x.arg for x in a.posonlyargs + a.args]
+        out = {}
+        args = list(args)
+        for i, nm in enumerate(names):
+            if i < len(args):
+                out[nm] = args[i]
+        if len(args) > len(names):
+            if a.vararg is None:
+                raise _Rse(_Opaque("TypeError(too many positional arguments)"))
+            out[a.vararg.arg] = tuple(args[len(names):])
+        elif a.vararg is not None:
+            out[a.vararg.arg] = ()
+        kwonly = [x.arg for x in a.kwonlyargs]
+        extra = {}
+        for k, v in kwargs.items():
+            if k in names or k in kwonly:
+                out[k] = v
+            elif a.kwarg is not None:
+                extra[k] = v
+            else:
+                raise _Rse(_Opaque(f"TypeError(unexpected keyword argument {k})"))
+        if a.kwarg is not None:
+            out[a.kwarg.arg] = extra
+        defaults = dict(zip(names[len(names) - len(a.defaults):], a.defaults))
+        defaults.update({k: d for k, d in zip(kwonly, a.kw_defaults) if d is not None})
+        for nm in names + kwonly:
+            if nm not in out:
+                if nm not in defaults:
+                    raise _Rse(_Opaque(f"TypeError(missing argument {nm})"))
+                out[nm] = self.ev(defaults[nm], env)
+        return out
+
+    def call(self, f, args, kwargs, node=None):
+        if self.on_call is not None:
+            self.on_call(f, args, kwargs)
+        if isinstance(f, _BoundHook):
+            r = f.obj.on_call(f.attr, list(args), kwargs)
+            if r is _MISSING:
+                raise CannotEval(f"method {f.attr} of {f.obj!r} is not modelled")
+            return r
+        if isinstance(f, _Obj) and f.on_call is not None:
+            r = f.on_call("__call__", list(args), kwargs)
+            if r is not _MISSING:
+                return r
+        if isinstance(f, _Obj) and f.cls is not None and isinstance(self.class_member(f.cls, "__call__"), (ast.FunctionDef, ast.AsyncFunctionDef)):
+            return self.call(_Fn(self.class_member(f.cls, "__call__"), self_=f), args, kwargs, node)
+        if isinstance(f, _Fn):
+            if self.depth > 12:
+                raise CannotEval("call depth")
+            fargs = list(args) if f.self_ is None or f.static else [f.self_] + list(args)
+            env = _Env(f.env)
+            if isinstance(f.node, ast.Lambda):
+                env.update(self.bind(f.node, fargs, kwargs, env))
+                return self.ev(f.node.body, env)
+            env.update(self.bind(f.node, fargs, kwargs, env))
+            self.depth += 1
+            try:
+                self.block(f.node.body, env)
+            except _Ret as r:
+                return r.value
+            finally:
+                self.depth -= 1
+            return None
+        if isinstance(f, _Cls):
+            return self.instantiate(f, args, kwargs, node)
+        if isinstance(f, _NT):
+            if len(args) > len(f.fields):
+                raise _Rse(_Opaque("TypeError(constructor arguments)"), node)
+            o = _Obj(f.name, **dict(zip(f.fields, args)), **kwargs)
+            o.ctor, o.ctor_pos = dict(o.fields), list(args)
+            return o
+        if isinstance(f, _Builtin):
+            return self.builtin(f.name, args, kwargs, node)
+        if isinstance(f, _Py):
+            # a method of a list / dict / set VALUE may store any machine value; everything else of the standard library only sees literals
+            container = isinstance(getattr(f.obj, "__self__", None), (list, dict, set)) and getattr(f.obj, "__name__", "") in ("append", "extend", "update", "setdefault", "add", "pop", "get", "discard", "copy", "index", "count")
+            if not container and not all(_concrete(a) for a in list(args) + list(kwargs.values())):
+                raise CannotEval(f"standard-library call with a non-literal argument: {short(node, 60) if node is not None else f.obj}")
+            try:
+                return f.obj(*args, **kwargs)
+            except (TypeError, ValueError, KeyError, IndexError, AttributeError, _re_mod.error) as x:
+                raise _Rse(_Opaque(type(x).__name__), node)
+        if isinstance(f, _Opaque):
+            if self.on_opaque_call is not None:
+                r = self.on_opaque_call(f, args, kwargs)
+                if r is not _MISSING:
+                    return r
+            if f.label == "collections.namedtuple" and len(args) == 2 and isinstance(args[0], str) and isinstance(args[1], (list, tuple, str)):
+                return _NT(args[0], args[1].replace(",", " ").split() if isinstance(args[1], str) else list(args[1]))
+            return _Opaque(f.label + "(...)", "object", args, kwargs)
+        if isinstance(f, _Sym):
+            return _Sym("call", f, *args)
+        raise CannotEval(f"call of {f!r}")
+
+    def builtin(self, name, args, kwargs, node):
+        if name == "isinstance" and len(args) == 2:
+            v, t = args
+            ts = t if isinstance(t, tuple) else (t,)
+            real = []
+            for x in ts:
+                if isinstance(x, _Builtin) and x.name in _TYPE_NAMES:
+                    real.append(_TYPE_NAMES[x.name])
+                elif isinstance(x, _Py) and isinstance(x.obj, type):
+                    real.append(x.obj)
+                elif isinstance(x, _Cls):
+                    real.append(x)
+                else:
+                    raise CannotEval(f"isinstance against {x!r}")
+            if isinstance(v, _Obj):
+                return any(isinstance(r, _Cls) and v.cls is not None and any(r.node is k for k in self.mro(v.cls)) for r in real)
+            if _concrete(v):
+                return any(not isinstance(r, _Cls) and isinstance(v, r) for r in real)
+            raise CannotEval(f"isinstance of {v!r}")
+        if name == "hasattr" and len(args) == 2 and isinstance(args[1], str):
+            v = args[0]
+            if isinstance(v, _Obj):
+                return args[1] in v.fields or (v.cls is not None and self.class_member(v.cls, args[1]) is not None) or (v.on_load is not None and v.on_load(args[1]) is not _MISSING)
+            if isinstance(v, _Opaque):
+                return args[1] in v.attrs  # representative: an unmodelled object has only the attributes the analysed code stored on it
+            raise CannotEval(f"hasattr of {v!r}")
+        if name == "getattr" and len(args) in (2, 3) and isinstance(args[1], str):
+            if len(args) == 3 and not self.builtin("hasattr", args[:2], {}, node):
+                return args[2]
+            return self.load(args[0], args[1], node)
+        if name in ("str", "repr") and len(args) == 1:
+            return str(args[0]) if _concrete(args[0]) else f"<{getattr(args[0], 'label', args[0])}>"
+        if name == "super":
+            return _Opaque("super()")
+        if name == "print":
+            return None
+        if name in ("len", "list", "tuple") and len(args) == 1 and not kwargs and isinstance(args[0], (list, tuple, dict, set, frozenset, str, range)):
+            return {"len": len, "list": list, "tuple": tuple}[name](args[0])  # a container of machine values is still a container
+        if name in ("any", "all") and len(args) == 1 and not kwargs and isinstance(args[0], (list, tuple, set, frozenset)):
+            return {"any": any, "all": all}[name](self.truth(x) for x in args[0])
+        if name in ("enumerate", "zip") and not kwargs and all(isinstance(a, (list, tuple, dict, str, range)) for a in args[:1 if name == "enumerate" else None]):
+            if name == "enumerate":
+                return [tuple(x) for x in enumerate(args[0], *[a for a in args[1:2] if isinstance(a, int)])]
+            return [tuple(x) for x in zip(*args)]
+        if name in _PURE and not kwargs:
+            if not all(_concrete(a) for a in args):
+                if name == "bool" and len(args) == 1:
+                    return self.truth(args[0])
+                raise CannotEval(f"{name}() of a non-literal value")
+            try:
+                return _PURE[name](*args)
+            except (TypeError, ValueError, OverflowError) as x:
+                raise _Rse(_Opaque(type(x).__name__), node)
+        raise CannotEval(f"builtin {name}({len(args)} argument(s))")
+
+    # -- attributes -------------------------------------------------------------------------------------------------------------------------------------------
+    def load(self, v, attr, node=None):
+        if isinstance(v, _Obj):
+            if v.on_load is not None:
+                r = v.on_load(attr)
+                if r is not _MISSING:
+                    return r
+            if attr in v.fields:
+                return v.fields[attr]
+            m = self.class_member(v.cls, attr) if v.cls is not None else None
+            if isinstance(m, (ast.FunctionDef, ast.AsyncFunctionDef)):
+                d = self._decos(m)
+                if d & {"property", "cached_property"}:
+                    r = self.call(_Fn(m, self_=v), [], {}, node)
+                    if "cached_property" in d:
+                        v.fields[attr] = r
+                    return r
+                return _Fn(m, self_=v, static="staticmethod" in d)
+            if isinstance(m, ast.Assign):
+                return self.ev(m.value, _Env())
+            if v.on_call is not None:
+                return _BoundHook(v, attr)
+            if v.cls is not None:
+                raise _Rse(_Opaque(f"AttributeError({v.label}.{attr})"), node)
+            return v.fields.setdefault(attr, _Opaque(f"{v.label}.{attr}", "attr"))
+        if isinstance(v, _Opaque):
+            if attr not in v.attrs:
+                v.attrs[attr] = _Opaque(f"{v.label}.{attr}", "attr")
+            return v.attrs[attr]
+        if isinstance(v, _Cls):
+            m = self.class_member(v.node, attr)
+            if isinstance(m, (ast.FunctionDef, ast.AsyncFunctionDef)):
+                return _Fn(m, static=True)  # through the class: static method, or a plain function that takes its receiver explicitly
+            if isinstance(m, ast.Assign):
+                return self.ev(m.value, _Env())
+            if attr == "__name__":
+                return v.node.name
+            raise CannotEval(f"class attribute {v.node.name}.{attr}")
+        if isinstance(v, _Py):
+            for modname, (real, allowed) in _PY_MODULES.items():
+                if v.obj is real:
+                    if attr in allowed:
+                        return _Py(getattr(real, attr))
+                    raise CannotEval(f"{modname}.{attr} is not modelled")
+            raise CannotEval(f"attribute {attr} of {v.obj!r}")
+        if isinstance(v, _Sym):
+            return _Sym("attr", v, attr)
+        if isinstance(v, _Fn) and attr == "__name__":
+            return getattr(v.node, "name", "<lambda>")
+        for t, allowed in _PY_METHODS.items():
+            if type(v) is t or (t is not int and isinstance(v, t) and not isinstance(v, bool)):
+                if attr in allowed:
+                    return _Py(getattr(v, attr))
+                break
+        if _concrete(v):
+            if hasattr(v, attr):
+                raise CannotEval(f"attribute {attr} of a {type(v).__name__} value is not modelled")
+            raise _Rse(_Opaque(f"AttributeError({type(v).__name__}.{attr})"), node)
+        raise CannotEval(f"attribute {attr} of {v!r}")
+
+    def store(self, target, value, env):
+        if isinstance(target, ast.Name):
+            env[target.id] = value
+        elif isinstance(target, ast.Attribute):
+            o = self.ev(target.value, env)
+            if isinstance(o, _Obj):
+                o.fields[target.attr] = value
+            elif isinstance(o, _Opaque):
+                o.attrs[target.attr] = value
+            else:
+                raise CannotEval(f"attribute store on {o!r}")
+        elif isinstance(target, ast.Subscript):
+            o, k = self.ev(target.value, env), self.ev(target.slice, env)
+            if isinstance(o, (dict, list)):
+                try:
+                    o[k] = value
+                except (TypeError, IndexError, KeyError) as x:
+                    raise _Rse(_Opaque(type(x).__name__), target)
+            elif not isinstance(o, _Opaque):
+                raise CannotEval(f"item store on {o!r}")
+        elif isinstance(target, (ast.Tuple, ast.List)):
+            if not isinstance(value, (list, tuple)) or len(value) != len(target.elts) or any(isinstance(t, ast.Starred) for t in target.elts):
+                raise CannotEval(f"unpacking {value!r}")
+            for t, x in zip(target.elts, value):
+                self.store(t, x, env)
+        else:
+            raise CannotEval(f"assignment target {type(target).__name__}")
+
+    # -- values -----------------------------------------------------------------------------------------------------------------------------------------------
+    def truth(self, v):
+        if isinstance(v, (_Opaque, _Sym)):
+            raise CannotEval(f"truth value of {v!r}")
+        if isinstance(v, _BoundHook):
+            raise CannotEval(f"truth value of the unmodelled attribute {v.attr} of {v.obj!r}")
+        if isinstance(v, (_Obj, _Fn, _Cls, _NT, _Py, _Builtin)):
+            return True
+        return bool(v)
+
+    def compare(self, op, a, b, node):
+        for x in (a, b):
+            if isinstance(x, _Opaque) and x.kind == "attr":
+                raise CannotEval(f"comparison on the unknown value {x!r}")
+        if isinstance(op, (ast.Is, ast.IsNot)):
+            same = a is b if not (_concrete(a) and _concrete(b)) else (a is b or (type(a) is type(b) and isinstance(a, (int, str, float, bool, type(None))) and a == b))
+            return same if isinstance(op, ast.Is) else not same
+        if isinstance(op, (ast.Eq, ast.NotEq)):
+            if _concrete(a) and _concrete(b):
+                eq = a == b
+            elif isinstance(a, _Sym) or isinstance(b, _Sym):
+                raise CannotEval("equality on a symbolic value")
+            else:
+                eq = a is b
+            return eq if isinstance(op, ast.Eq) else not eq
+        if isinstance(op, (ast.In, ast.NotIn)):
+            if isinstance(b, (list, tuple, set, frozenset, dict, str)) and (_concrete(a) or isinstance(a, (_Obj, _Opaque))):
+                try:
+                    r = any(self.compare(ast.Eq(), a, x, node) for x in b) if not isinstance(b, str) else (a in b)
+                except TypeError as x:
+                    raise _Rse(_Opaque("TypeError"), node)
+                return r if isinstance(op, ast.In) else not r
+            raise CannotEval(f"membership in {b!r}")
+        if type(op) in _CMP_OPS:
+            if not (_concrete(a) and _concrete(b)):
+                raise CannotEval(f"ordering of {a!r} and {b!r}")
+            try:
+                return _CMP_OPS[type(op)](a, b)
+            except TypeError:
+                raise _Rse(_Opaque("TypeError"), node)
+        raise CannotEval(f"comparison {type(op).__name__}")
+
+    def ev(self, e, env):
+        self.steps += 1
+        if self.steps > self.budget:
+            raise CannotEval("step budget exhausted (the simulated code does not terminate on the representative input)")
+        if isinstance(e, ast.Constant):
+            return e.value
+        if isinstance(e, ast.Name):
+            return self.lookup(e.id, env)
+        if isinstance(e, ast.Attribute):
+            return self.load(self.ev(e.value, env), e.attr, e)
+        if isinstance(e, ast.Call):
+            args, kwargs = [], {}
+            recv = self.ev(e.func.value, env) if isinstance(e.func, ast.Attribute) else None  # Python's order: the receiver first, then the arguments
+            for a in e.args:
+                if isinstance(a, ast.Starred):
+                    v = self.ev(a.value, env)
+                    if not isinstance(v, (list, tuple)):
+                        raise CannotEval("*argument")
+                    args += list(v)
+                else:
+                    args.append(self.ev(a, env))
+            for k in e.keywords:
+                if k.arg is None:
+                    v = self.ev(k.value, env)
+                    if not isinstance(v, dict):
+                        raise CannotEval("**argument")
+                    kwargs.update(v)
+                else:
+                    kwargs[k.arg] = self.ev(k.value, env)
+            if isinstance(e.func, ast.Attribute):
+                if isinstance(recv, _Obj) and recv.on_call is not None:
+                    r = recv.on_call(e.func.attr, args, kwargs)
+                    if r is not _MISSING:
+                        return r
+                f = self.load(recv, e.func.attr, e.func)
+            else:
+                f = self.ev(e.func, env)
+            return self.call(f, args, kwargs, e)
+        if isinstance(e, ast.BoolOp):
+            r = None
+            for v in e.values:
+                r = self.ev(v, env)
+                t = self.truth(r)
+                if (isinstance(e.op, ast.And) and not t) or (isinstance(e.op, ast.Or) and t):
+                    return r
+            return r
+        if isinstance(e, ast.UnaryOp):
+            v = self.ev(e.operand, env)
+            if isinstance(e.op, ast.Not):
+                return not self.truth(v)
+            if isinstance(v, (int, float)) and not isinstance(v, bool):
+                return -v if isinstance(e.op, ast.USub) else +v if isinstance(e.op, ast.UAdd) else ~v
+            raise CannotEval(f"unary operator on {v!r}")
+        if isinstance(e, ast.Compare):
+            left = self.ev(e.left, env)
+            for op, c in zip(e.ops, e.comparators):
+                right = self.ev(c, env)
+                if not self.compare(op, left, right, e):
+                    return False
+                left = right
+            return True
+        if isinstance(e, ast.IfExp):
+            return self.ev(e.body, env) if self.truth(self.ev(e.test, env)) else self.ev(e.orelse, env)
+        if isinstance(e, ast.BinOp):
+            a, b = self.ev(e.left, env), self.ev(e.right, env)
+            if type(e.op) not in _ARITH_OPS:
+                raise CannotEval(f"operator {type(e.op).__name__}")
+            num = lambda x: isinstance(x, (int, float)) and not isinstance(x, bool)  # noqa: E731
+            if (num(a) and num(b)) or (isinstance(e.op, ast.Add) and type(a) is type(b) and isinstance(a, (str, list, tuple))) or (isinstance(e.op, ast.Mod) and isinstance(a, str) and _concrete(b)) \
+                    or (isinstance(e.op, ast.Mult) and isinstance(a, (str, list)) and isinstance(b, int)):
+                try:
+                    return _ARITH_OPS[type(e.op)](a, b)
+                except ZeroDivisionError:
+                    raise _Rse(_Opaque("ZeroDivisionError"), e)
+                except (TypeError, ValueError, OverflowError) as x:
+                    raise _Rse(_Opaque(type(x).__name__), e)
+            if _concrete(a) and _concrete(b):
+                raise _Rse(_Opaque("TypeError"), e)
+            raise CannotEval(f"arithmetic on {a!r} and {b!r}")
+        if isinstance(e, (ast.Tuple, ast.List, ast.Set)):
+            vals = []
+            for x in e.elts:
+                if isinstance(x, ast.Starred):
+                    vals += list(self.ev(x.value, env))
+                else:
+                    vals.append(self.ev(x, env))
+            return tuple(vals) if isinstance(e, ast.Tuple) else vals if isinstance(e, ast.List) else set(vals)
+        if isinstance(e, ast.Dict):
+            out = {}
+            for k, v in zip(e.keys, e.values):
+                if k is None:
+                    out.update(self.ev(v, env))
+                else:
+                    out[self.ev(k, env)] = self.ev(v, env)
+            return out
+        if isinstance(e, ast.Subscript):
+            o = self.ev(e.value, env)
+            if isinstance(e.slice, ast.Slice):
+                if not isinstance(o, (list, tuple, str)):
+                    raise CannotEval(f"slice of {o!r}")
+                lo, hi, st = [self.ev(x, env) if x is not None else None for x in (e.slice.lower, e.slice.upper, e.slice.step)]
+                return o[lo:hi:st]
+            k = self.ev(e.slice, env)
+            if isinstance(o, _Opaque):
+                return o.attrs.setdefault(f"[{k!r}]", _Opaque(f"{o.label}[{k!r}]", "attr"))
+            if isinstance(o, _Obj) and o.cls is None:  # an item of a stand-in: unknown value, stable identity
+                return o.fields.setdefault(f"[{k!r}]", _Opaque(f"{o.label}[{k!r}]", "attr"))
+            if isinstance(o, _Sym):
+                return _Sym("item", o, k)
+            if isinstance(o, (dict, list, tuple, str, _re_mod.Match)) and _concrete(k):
+                try:
+                    return o[k]
+                except (KeyError, IndexError, TypeError) as x:
+                    raise _Rse(_Opaque(type(x).__name__), e)
+            raise CannotEval(f"subscript of {o!r}")
+        if isinstance(e, ast.JoinedStr):
+            out = []
+            for v in e.values:
+                if isinstance(v, ast.Constant):
+                    out.append(str(v.value))
+                else:
+                    val = self.ev(v.value, env)
+                    spec = self.ev(v.format_spec, env) if v.format_spec is not None else ""
+                    if _concrete(val):
+                        try:
+                            out.append(format(repr(val) if v.conversion == 114 else str(val) if v.conversion == 115 else val, spec))
+                        except (TypeError, ValueError) as x:
+                            raise _Rse(_Opaque(type(x).__name__), e)
+                    else:
+                        out.append(f"<{getattr(val, 'label', val)}>")
+            return "".join(out)
+        if isinstance(e, ast.NamedExpr):
+            v = self.ev(e.value, env)
+            self.store(e.target, v, env)
+            return v
+        if isinstance(e, ast.Yield):
+            v = self.ev(e.value, env) if e.value is not None else None
+            return self.on_yield(v, e) if self.on_yield is not None else None
+        if isinstance(e, ast.Await):
+            if self.on_await is not None:
+                r = self.on_await(e, env)
+                if r is not _MISSING:
+                    return r
+            return self.ev(e.value, env)
+        if isinstance(e, ast.Lambda):
+            return _Fn(e, env)
+        if isinstance(e, (ast.ListComp, ast.SetComp, ast.GeneratorExp, ast.DictComp)):
+            out = []
+
+            def rec(i, env_):
+                if i == len(e.generators):
+                    out.append((self.ev(e.key, env_), self.ev(e.value, env_)) if isinstance(e, ast.DictComp) else self.ev(e.elt, env_))
+                    return
+                g = e.generators[i]
+                it = self.ev(g.iter, env_)
+                if g.is_async or not isinstance(it, (list, tuple, set, frozenset, dict, range, str)):
+                    raise CannotEval(f"comprehension over {it!r}")
+                for x in list(it):
+                    env2 = _Env(env_)
+                    self.store(g.target, x, env2)
+                    if all(self.truth(self.ev(c, env2)) for c in g.ifs):
+                        rec(i + 1, env2)
+
+            rec(0, env)
+            return dict(out) if isinstance(e, ast.DictComp) else set(out) if isinstance(e, ast.SetComp) else out
+        raise CannotEval(f"{type(e).__name__}: {short(e, 60)}")
+
+    # -- statements -------------------------------------------------------------------------------------------------------------------------------------------
+    def block(self, stmts, env):
+        for s in stmts:
+            self.stmt(s, env)
+
+    def stmt(self, s, env):
+        self.steps += 1
+        if self.steps > self.budget:
+            raise CannotEval("step budget exhausted (the simulated code does not terminate on the representative input)")
+        if isinstance(s, ast.Expr):
+            self.ev(s.value, env)
+        elif isinstance(s, ast.Assign):
+            v = self.ev(s.value, env)
+            for t in s.targets:
+                self.store(t, v, env)
+        elif isinstance(s, ast.AnnAssign):
+            if s.value is not None:
+                self.store(s.target, self.ev(s.value, env), env)
+        elif isinstance(s, ast.AugAssign):
+            cur = self.ev(_as_load(s.target), env)
+            self.store(s.target, self._binop(s.op, cur, self.ev(s.value, env), s), env)
+        elif isinstance(s, ast.If):
+            self.block(s.body if self.truth(self.ev(s.test, env)) else s.orelse, env)
+        elif isinstance(s, ast.While):
+            while self.truth(self.ev(s.test, env)):
+                try:
+                    self.block(s.body, env)
+                except _Brk:
+                    break
+                except _Cnt:
+                    continue
+            else:
+                self.block(s.orelse, env)
+        elif isinstance(s, (ast.For, ast.AsyncFor)):
+            it = self.ev(s.iter, env)
+            if not isinstance(it, (list, tuple, set, frozenset, dict, range, str)):
+                raise CannotEval(f"loop over {it!r}")
+            for x in list(it):
+                self.store(s.target, x, env)
+                try:
+                    self.block(s.body, env)
+                except _Brk:
+                    break
+                except _Cnt:
+                    continue
+            else:
+                self.block(s.orelse, env)
+        elif isinstance(s, ast.Try):
+            try:
+                try:
+                    self.block(s.body, env)
+                except _Rse as r:
+                    for h in s.handlers:
+                        names = [dotted(t) or "" for t in (h.type.elts if isinstance(h.type, ast.Tuple) else [h.type])] if h.type is not None else ["BaseException"]
+                        if any(n_.split(".")[-1] in ("BaseException", "Exception", r.name().split(".")[-1]) for n_ in names):
+                            if h.name:
+                                env[h.name] = r.value
+                            self.block(h.body, env)
+                            break
+                    else:
+                        raise
+                else:
+                    self.block(s.orelse, env)
+            except (_Rse, _Ret, _Brk, _Cnt):  # the analysed code's own control flow: its finally block runs (not when the walk itself is cut or gives up)
+                self.block(s.finalbody, env)
+                raise
+            self.block(s.finalbody, env)
+        elif isinstance(s, (ast.With, ast.AsyncWith)):
+            for it in s.items:
+                v = self.ev(it.context_expr, env)
+                if it.optional_vars is not None:
+                    self.store(it.optional_vars, v if isinstance(v, (_Opaque, _Obj)) else _Opaque("context"), env)
+            self.block(s.body, env)
+        elif isinstance(s, ast.Return):
+            raise _Ret(self.ev(s.value, env) if s.value is not None else None)
+        elif isinstance(s, ast.Raise):
+            if s.exc is None:
+                raise _Rse(_Opaque("re-raise"), s)
+            v = self.ev(s.exc, env)
+            if isinstance(v, _Cls):
+                v = _Opaque(v.node.name)
+            elif isinstance(v, _Obj):
+                v = _Opaque(v.label)
+            raise _Rse(v if isinstance(v, _Opaque) else _Opaque(repr(v)), s)
+        elif isinstance(s, ast.Break):
+            raise _Brk()
+        elif isinstance(s, ast.Continue):
+            raise _Cnt()
+        elif isinstance(s, (ast.FunctionDef, ast.AsyncFunctionDef)):
+            env[s.name] = _Fn(s, env)
+        elif isinstance(s, (ast.Pass, ast.Import, ast.ImportFrom, ast.Global, ast.Nonlocal, ast.ClassDef)):
+            pass
+        elif isinstance(s, ast.Assert):
+            if not self.truth(self.ev(s.test, env)):
+                raise _Rse(_Opaque("AssertionError"), s)
+        elif isinstance(s, ast.Delete):
+            for t in s.targets:
+                if isinstance(t, ast.Name):
+                    env.pop(t.id, None)
+        else:
+            raise CannotEval(f"statement kind {type(s).__name__} (line {getattr(s, 'lineno', '?')})")
+
+    def _binop(self, op, a, b, node):
+        env = _Env()
+        env["_a"], env["_b"] = a, b
+        return self.ev(ast.BinOp(left=ast.Name(id="_a", ctx=ast.Load()), op=op, right=ast.Name(id="_b", ctx=ast.Load())), env)
+
+
+class _BoundHook:
+    """a method of a rule-supplied object that is looked up but not called through the machine's call path"""
+
+    def __init__(self, obj, attr):
+        self.obj, self.attr = obj, attr
+
+
+def _as_load(t):
+    n = source.clone(t)
+    for x in ast.walk(n):
+        if hasattr(x, "ctx"):
+            x.ctx = ast.Load()
+    return n
+
+
+def _close(a, b, tol=1e-9):
+    return isinstance(a, (int, float)) and not isinstance(a, bool) and isinstance(b, (int, float)) and abs(a - b) <= tol * max(1.0, abs(a), abs(b))
 
 
 # ---- F40: the client's schedule is anchored at the end of its ramp-up wait ------------------------------------------------------------------------------
@@ -138,204 +1018,121 @@ _CLOCKS = ("time.perf_counter", "time.monotonic")
 _SLEEP = "asyncio.sleep"
 
 
-class _LoopReached(Exception):
-    pass
+class _ExecutorRun:
+    """One walk of AsyncExecutor.__call__ by the local machine on a VIRTUAL CLOCK, from its first statement to the moment the first request is issued. The executor object is
+    built by walking AsyncExecutor.__init__ with stand-ins in the roles the worker passes them (the schedule handle = the constructor argument that carries the result of
+    schedule_for(...); everything else = an inert stand-in whose is_set() is False). A read of time.perf_counter() / time.monotonic() is the virtual time, asyncio.sleep(x)
+    advances it by max(x, 0), nothing else takes time. The handle's ramp-up wait is `wait`, calling it gives a schedule whose first request is due at offset `offset`.
+    A request is issued when the runner the schedule yielded is handed to a call (execute_single(runner, ...)) or called; the request itself takes no time and what the
+    executor does with its result is not modelled: the walk goes on with the next element of the schedule (like a `continue`) and ends at the second request. Helper methods /
+    functions of the module that the executor calls on the way (an extracted `_wait_until`, an extracted ramp-up wait) are followed like any other statement.
+      issues   virtual times at which the first two requests are issued; issued = the first (None: the walk ended without a request)
+      sleeps   [(virtual time before the sleep, duration)]
+      calls    [(method called on the handle, virtual time, arguments)]"""
 
+    def __init__(self, drv, wait, offset, t0=100.0):
+        AE = drv.cls("AsyncExecutor")
+        _prop(drv, AE, "__call__")
+        sites = [c for c in ast.walk(drv.tree) if isinstance(c, ast.Call) and last_attr(c.func) == AE.name and source.enclosing_func(c) is not None]
+        if len(sites) != 1 or any(isinstance(a, ast.Starred) for a in sites[0].args):
+            raise AnchorMissing(f"the construction AsyncExecutor(...) in {_D} ({len(sites)} found)")
+        site = sites[0]
+        ldefs = local_defs(source.enclosing_func(site))
 
-class _Ended(Exception):
-    pass
+        def is_handle(e):
+            return any(isinstance(x, ast.Call) and last_attr(x.func) == "schedule_for" for x in ast.walk(source.inline_node(e, ldefs)))
 
+        hpos = [i for i, a in enumerate(site.args) if is_handle(a)]
+        hkw = [k.arg for k in site.keywords if k.arg and is_handle(k.value)]
+        if len(hpos) + len(hkw) != 1:
+            raise AnchorMissing("the argument of AsyncExecutor(...) that carries the result of schedule_for(...)")
+        self.clock, self.sleeps, self.calls, self.issues, self.t0 = [t0], [], [], [], t0
+        run = self
 
-def _timeline(expr, now, wait):
-    """copy of `expr` in which a read of the monotonic clock is the virtual time `now` and the schedule handle's ramp-up wait is `wait` (nothing else is interpreted here)."""
+        def issue():
+            run.issues.append(run.clock[0])
+            raise (_Cnt() if len(run.issues) < 2 else _Stop())
 
-    class X(ast.NodeTransformer):
-        def visit_Call(self, n):
-            if dotted(n.func) in _CLOCKS and not n.args and not n.keywords:
-                return ast.Constant(value=now)
-            return self.generic_visit(n)
+        def runner_call(attr, args, kwargs):
+            if attr == "__call__":
+                issue()
+            return _MISSING
 
-        def visit_Attribute(self, n):
-            if n.attr == "ramp_up_wait_time":
-                return ast.Constant(value=wait)
-            return self.generic_visit(n)
+        self.runner = _Obj("runner", on_call=runner_call, completed=None, percent_completed=None)
 
-    try:
-        return X().visit(source.clone(expr))
-    except SyntaxError as e:  # an expression that does not re-parse on its own (e.g. a bare await): opaque
-        raise CannotEval(str(e))
+        def handle_load(attr):
+            return wait if attr == "ramp_up_wait_time" else _MISSING
 
+        def handle_call(attr, args, kwargs):
+            if attr == "__call__":
+                return [(offset, "sample type", 0.25, run.runner, {"body": 1}), (2 * offset, "sample type", 0.5, run.runner, {"body": 2})]
+            run.calls.append((attr, run.clock[0], list(args)))
+            return None
 
-def _sleep_arg(node):
-    """the duration of `await asyncio.sleep(<duration>)`, else None."""
-    if isinstance(node, ast.Expr):
-        node = node.value
-    if isinstance(node, ast.Await) and isinstance(node.value, ast.Call) and dotted(node.value.func) == _SLEEP and node.value.args:
-        return node.value.args[0]
-    return None
+        self.handle = _Obj("schedule handle", on_load=handle_load, on_call=handle_call)
 
+        def inert(i):
+            return _Obj(f"constructor argument {i}", on_call=lambda attr, a, k: False if attr == "is_set" else None, any_completes_parent=False, completes_parent=False)
 
-def _run_until_loop(stmts, loop, env, clk, wait):
-    """Local helper (sa/minieval.py evaluates expressions only): walks the straight-line / if / try / with statements that precede the request loop on a virtual time line.
-    A clock read yields clk[0]; `await asyncio.sleep(x)` advances it by x; every other statement takes no (modelled) time; a local whose value cannot be evaluated from
-    clock reads, the ramp-up wait and literals is unbound (using it later is CannotEval => the rule is inconclusive, never a verdict). Raises _LoopReached at `loop`."""
-    for s in stmts:
-        if s is loop:
-            raise _LoopReached()
-        if isinstance(s, ast.Assign):
-            try:
-                v, known = ev(_timeline(s.value, clk[0], wait), env), True
-            except CannotEval:
-                v, known = None, False
-            for t in s.targets:
-                if isinstance(t, ast.Name) and known:
-                    env[t.id] = v
-                else:
-                    for x in ast.walk(t):
-                        if isinstance(x, ast.Name) and isinstance(x.ctx, ast.Store):
-                            env.pop(x.id, None)
-        elif isinstance(s, ast.AugAssign):
-            if isinstance(s.target, ast.Name):
-                try:
-                    env[s.target.id] = ev(_timeline(ast.BinOp(left=ast.Name(id=s.target.id, ctx=ast.Load()), op=s.op, right=s.value), clk[0], wait), env)
-                except CannotEval:
-                    env.pop(s.target.id, None)
-        elif isinstance(s, ast.Expr):
-            d = _sleep_arg(s)
-            if d is not None:
-                dt = ev(_timeline(d, clk[0], wait), env)
-                if not isinstance(dt, (int, float)) or isinstance(dt, bool):
-                    raise CannotEval(f"sleep duration {u(d)}")
-                clk[0] += max(dt, 0)
-            # any other expression statement (logging, starting the progress timer) takes no modelled time
-        elif isinstance(s, ast.If):
-            _run_until_loop(s.body if ev(_timeline(s.test, clk[0], wait), env) else s.orelse, loop, env, clk, wait)
-        elif isinstance(s, ast.Try):
-            _run_until_loop(s.body, loop, env, clk, wait)
-            _run_until_loop(s.orelse, loop, env, clk, wait)
-            _run_until_loop(s.finalbody, loop, env, clk, wait)
-        elif isinstance(s, (ast.With, ast.AsyncWith)):
-            _run_until_loop(s.body, loop, env, clk, wait)
-        elif isinstance(s, (ast.Return, ast.Raise)):
-            raise _Ended()
-        elif isinstance(s, (ast.Pass, ast.Import, ast.ImportFrom, ast.FunctionDef, ast.AsyncFunctionDef, ast.ClassDef, ast.Global, ast.Nonlocal, ast.Assert)):
-            pass
-        else:
-            raise CannotEval(f"statement kind {type(s).__name__} before the request loop (line {getattr(s, 'lineno', '?')})")
+        def opaque_call(f, args, kwargs):
+            if f.label in _CLOCKS and not args and not kwargs:
+                return run.clock[0]
+            if f.label == _SLEEP:
+                d = args[0] if args else None
+                if not isinstance(d, (int, float)) or isinstance(d, bool):
+                    raise CannotEval(f"sleep duration {d!r}")
+                run.sleeps.append((run.clock[0], d))
+                run.clock[0] += max(d, 0)
+                return None
+            return _MISSING
 
+        def observe(f, args, kwargs):
+            if any(a is run.runner for a in list(args) + list(kwargs.values())):
+                issue()
 
-def schedule_anchor_rule(chk, rid, ex, loop):
-    """Pacing under ramp-up (F40): the absolute time a request is due is <anchor> + <scheduled offset>, and the executor sleeps until then. The anchor must be the moment the client
-    starts issuing requests, i.e. the end of its ramp-up wait: anchored before the wait, every request whose offset is smaller than the wait is already overdue when the client
-    wakes up and is issued back-to-back (not weight*C/T apart). Decided on values: the statements before the request loop are walked on a virtual time line (start at t0, the
-    ramp-up sleep advances it by the wait W) for W = 0 and W > 0; then the EXTRACTED sleep-until duration of the loop body is evaluated for a first request at offset d.
-    It must be d whatever W is (pre-repair: d - W). Roles: offset = first element of the loop's target tuple (position 0 of the generator's yield, O5.3); the sleep-until =
-    the `await asyncio.sleep(..)` in the loop whose duration depends on the offset; clock = time.perf_counter()/monotonic(); wait = <schedule handle>.ramp_up_wait_time."""
-    tgt = loop.target
-    first = tgt.elts[0] if isinstance(tgt, ast.Tuple) and tgt.elts else tgt
-    if not isinstance(first, ast.Name):
-        raise AnchorMissing("scheduled offset: first target of the request loop in AsyncExecutor.__call__")
-    offset = first.id
-    ldefs = {k: v for k, v in local_defs(ex).items() if any(a is loop for a in source.ancestors(v))}
-    until = []
-    for n in ast.walk(loop):
-        d = _sleep_arg(n) if isinstance(n, ast.Await) else None
-        if d is not None:
-            inl = source.inline_node(d, ldefs)
-            if any(isinstance(x, ast.Name) and x.id == offset for x in ast.walk(inl)):
-                until.append((n, inl))
-    if not until:
-        raise AnchorMissing("sleep-until on the scheduled offset in the request loop of AsyncExecutor.__call__")
-    T0, D = 100.0, 0.5
-    for wait in (0, 4.0):
-        env, clk = {}, [T0]
+        self.machine = m = _Machine(drv, on_opaque_call=opaque_call)
+        m.on_call = observe
+        self.error = None
+        ex = m.instantiate(_Cls(AE), [self.handle if i in hpos else inert(i) for i in range(len(site.args))], {k.arg: (self.handle if k.arg in hkw else inert(k.arg)) for k in site.keywords if k.arg})
         try:
-            try:
-                _run_until_loop(ex.body, loop, env, clk, wait)
-                raise AnchorMissing(f"the request loop of AsyncExecutor.__call__ is not reached with ramp-up wait {wait}")
-            except _LoopReached:
-                pass
-            except _Ended:
-                raise AnchorMissing(f"AsyncExecutor.__call__ ends before its request loop with ramp-up wait {wait}")
-            env[offset] = D
-            rests = [(n, ev(_timeline(inl, clk[0], wait), env)) for n, inl in until]
+            m.call(m.load(ex, "__call__"), [], {})
+        except (_Stop, _Cnt):
+            pass
+        except _Rse as x:
+            self.error = x.name()
+        self.issued = self.issues[0] if self.issues else None
+
+
+def schedule_anchor_rule(chk, rid, drv):
+    """Pacing under ramp-up (F40): a request scheduled at offset d is due d after the moment the client starts issuing requests, i.e. after the END of its ramp-up wait. Anchored
+    before the wait, every request whose offset is smaller than the wait is already overdue when the client wakes up and is issued back-to-back (not weight*C/T apart).
+    Decided on values: AsyncExecutor.__call__ is walked on a virtual clock (see _ExecutorRun) for a ramp-up wait of 0 s and of 4 s with a first request at offset d = 0.5 s; the
+    request must be issued at start + wait + d (pre-repair: start + wait, overdue). No local, attribute or helper name is consulted: where the anchor is read, how the
+    sleep-until is spelled and whether it lives in the loop or in a helper (`await self._wait_until(due)`) does not matter."""
+    exf = _prop(drv, drv.cls("AsyncExecutor"), "__call__")
+    D = 0.5
+    for wait in (0, 4.0):
+        try:
+            r = _ExecutorRun(drv, wait, D)
         except CannotEval as e:
-            chk.unknown(rid, f"schedule anchor not evaluable on the virtual time line (ramp-up wait {wait}): {e}", until[0][0])
+            chk.unknown(rid, f"AsyncExecutor.__call__ is not evaluable on the virtual time line (ramp-up wait {wait:g}): {e}", exf)
             continue
-        waited = clk[0] - T0
-        bad = [(n, r) for n, r in rests if not isinstance(r, (int, float)) or abs(r - D) > 1e-9]
+        if r.issued is None:
+            chk.unknown(rid, f"AsyncExecutor.__call__ issues no request on the virtual time line (ramp-up wait {wait:g})" + (f": it raises {r.error}" if r.error else ""), exf)
+            continue
+        waited = sum(max(d, 0) for t, d in r.sleeps)
+        late = r.issued - (r.t0 + wait + D)
         chk.ob(rid, f"ramp-up wait {wait:g}s: a request scheduled at offset d is due d after the client's start (the end of its ramp-up wait), i.e. the schedule is anchored after the wait",
-               not bad and abs(waited - wait) < 1e-9, (bad[0][0] if bad else until[0][0]),
-               f"virtual time line: start {T0:g}, ramp-up sleep {waited:g}s, request loop entered at {clk[0]:g}; first request at offset {D:g} is due in "
-               f"{', '.join(f'{r:g}' if isinstance(r, (int, float)) else repr(r) for _, r in rests)}s (expected {D:g}s)"
-               + ("" if not bad else f": the schedule is anchored {D - bad[0][1]:g}s before the client starts, so every request with an offset below that is overdue and issued back-to-back"
-                  if isinstance(bad[0][1], (int, float)) else ""),
+               abs(late) < 1e-9, exf,
+               f"virtual time line: start {r.t0:g}, sleeps {[(round(t - r.t0, 6), round(d, 6)) for t, d in r.sleeps]} (offset from start, duration; {waited:g}s in total), first request at offset {D:g} issued "
+               f"{r.issued - r.t0:g}s after the start (expected {wait + D:g}s)"
+               + ("" if abs(late) < 1e-9 else f": {-late:g}s early - the schedule is anchored before the client starts issuing, every request with an offset below that is overdue and issued back-to-back" if late < 0
+                  else f": {late:g}s late"),
                key=f"{_D}:AsyncExecutor.__call__:schedule-anchor-after-ramp-up-wait:wait={wait:g}")
 
 
 # ---- F48: a task that reaches the loop-control choice carries fields of ONE kind ---------------------------------------------------------------------------
 _MIX_FIELDS = (("warmup_iterations", "warmup-iterations", 5), ("iterations", "iterations", 5), ("warmup_time_period", "warmup-time-period", 10), ("time_period", "time-period", 10))
-
-
-def iteration_time_mix_rule(chk, rid, repo):
-    """requires_time_period_schedule() lets any time-period field win over the iteration fields (O5.5 table), so `exactly warmup-iterations + iterations requests` holds for a
-    task only if no task carrying an iteration field AND a time-period field ever reaches the driver: the loader has to reject it (its own message: 'mixing time periods and
-    iterations is not allowed'). Decided on values: the 16 set/unset combinations of the four fields (ramp-up unset) are fed, as a record standing for the constructed Task, through
-    the validation statements that follow the Task construction in TrackSpecificationReader.parse_task (tables.decide over the EXTRACTED tests; a call of self._error / a raise is
-    the rejection). Every mixed row must be rejected, every unmixed row accepted. Roles: the task = the local bound to the `Task(...)` construction; fields = the Task attributes
-    that requires_time_period_schedule() reads. Where a field value comes from (the task itself or the default inherited from the parallel element) does not matter here."""
-    ldr = repo.module("esrally/track/loader.py")
-    chk.use(ldr)
-    pt = ldr.methods(ldr.cls("TrackSpecificationReader")).get("parse_task")
-    if pt is None:
-        raise AnchorMissing("TrackSpecificationReader.parse_task")
-    ctor = [c for c in source.calls_in(pt) if last_attr(c.func) == "Task" and {k.arg for k in c.keywords} >= {f for f, _, _ in _MIX_FIELDS}]
-    tstmt = source.enclosing_stmt(ctor[0]) if len(ctor) == 1 else None
-    if not (isinstance(tstmt, ast.Assign) and len(tstmt.targets) == 1 and isinstance(tstmt.targets[0], ast.Name) and tstmt.value is ctor[0]):
-        raise AnchorMissing("`<local> = track.Task(warmup_iterations=..., iterations=..., warmup_time_period=..., time_period=...)` in parse_task")
-    task_local = tstmt.targets[0].id
-    par = source.parent(tstmt)
-    own = next((b for f_ in ("body", "orelse", "finalbody") for b in [getattr(par, f_, None)] if isinstance(b, list) and any(x is tstmt for x in b)), None)
-    if own is None:
-        raise AnchorMissing("the block of parse_task that constructs the Task")
-    block = own[[i for i, x in enumerate(own) if x is tstmt][0] + 1:]
-
-    def on_stmt(s, e_, b):
-        if isinstance(s, ast.Expr) and isinstance(s.value, ast.Call) and is_self_attr(s.value.func, "_error"):
-            return Outcome("raise", s.value, [], s)
-        return None
-
-    n_rows = 0
-    for vals in itertools.product([False, True], repeat=4):
-        fields = {f: (v if given else None) for (f, _, v), given in zip(_MIX_FIELDS, vals)}
-        rec = Record(ramp_up_time_period=None, **fields)
-
-        def atom(n, e_, rec=rec):
-            try:
-                return bool(ev(n, {task_local: rec}))
-            except CannotEval:
-                return None
-
-        names = [k for (_, k, _), given in zip(_MIX_FIELDS, vals) if given]
-        row = "+".join(names) or "none"
-        try:
-            out = decide(block, atom, {}, on_stmt=on_stmt)
-        except (Unsupported, UnknownAtom) as e:
-            chk.unknown(rid, f"validation statements of parse_task are not a decision over the four iteration / time-period fields (row {row}): {e}", pt)
-            continue
-        n_rows += 1
-        rejected = out.kind == "raise"
-        wi, it, wt, tp = vals
-        mixed = (wi or it) and (wt or tp)
-        detail = f"the loader {'rejects' if rejected else 'accepts'} the task"
-        if mixed and not rejected:
-            detail += (f": it reaches the driver with both kinds of fields, requires_time_period_schedule() picks the time-based control and the "
-                       f"{' + '.join(n for n in names if 'iterations' in n)} written in the track are ignored"
-                       + (" (warm-up period without a period: the control is infinite, a task with a constant parameter source never ends)" if not tp else ""))
-        chk.ob(rid, f"task with {', '.join(names) or 'no iteration / time-period field'}: {'rejected by the loader (iterations mixed with time periods)' if mixed else 'accepted'}",
-               rejected == mixed, (out.node if rejected and out.node is not None else pt), detail,
-               key=f"esrally/track/loader.py:TrackSpecificationReader.parse_task:mix:[{row}]")
-    chk.ob(rid, "iteration / time-period mixing table: all 16 rows evaluated", n_rows == 16, pt, f"{n_rows} of 16 rows")
 
 
 # ---- F47: the progress Rally reports for a step is monotone by construction ----------------------------------------------------------------------------------
@@ -493,17 +1290,825 @@ def progress_aggregate_rule(chk, rid, drv):
            ok or bool(hw), site, detail, key=f"{_D}:Driver.update_progress_message:progress-mean-divisor")
 
 
+def _section(chk, rid, fn, *args):
+    """one group of obligations: an anchor role it cannot locate makes THIS group inconclusive (exit 2) and does not hide the verdicts of the groups that follow."""
+    try:
+        return fn(*args)
+    except AnchorMissing as e:
+        chk.unknown(rid, f"anchor missing: {e}")
+    except CannotEval as e:
+        chk.unknown(rid, f"not evaluable: {e}")
+    except (TypeError, ValueError, KeyError, IndexError, AttributeError, RecursionError) as e:  # a defect of this checker: reported for this group, never a verdict
+        import traceback
+
+        chk.unknown(rid, f"checker raised {type(e).__name__}: {e} [{' | '.join(traceback.format_exc().strip().splitlines()[-3:])}]")
+    return None
+
+
+def _value_and_unit(r):
+    """(value, unit) of a parsed target throughput by TYPE of its two members (the number is the value, the string the unit), whatever the record is called or how it was built
+    (namedtuple, typing.NamedTuple, dataclass, plain tuple, positional or keyword construction); None when it is not such a pair."""
+    if isinstance(r, _Obj):
+        members = list(r.fields.values()) or list(r.ctor_pos)
+    elif isinstance(r, _Opaque) and r.label.endswith("(...)"):
+        members = list(r.args) + list(r.kwargs.values())
+    elif isinstance(r, (tuple, list)):
+        members = list(r)
+    else:
+        return None
+    nums = [x for x in members if isinstance(x, (int, float)) and not isinstance(x, bool)]
+    strs = [x for x in members if isinstance(x, str)]
+    return (nums[0], strs[0]) if len(members) == 2 and len(nums) == 1 and len(strs) == 1 else None
+
+
+def target_throughput_rule(chk, rid, repo):
+    """Task.target_throughput decided on VALUES: the property's statements (with every helper it calls: a local closure, a static method, a compiled class-level pattern, a walrus,
+    a conditional expression - whatever the spelling) are walked by the local machine for representative task parameters; what comes back - None, a (number, unit string) pair or a
+    raised exception - is compared with the documented meaning. Roles: the task = an object whose `params` is the representative dict (the attribute every parameter read of Task
+    goes through) and whose `clients` is 4 (so that a client count leaking into the rate shows); value / unit = the number / the string of the returned pair."""
+    trk = repo.module("esrally/track/track.py")
+    chk.use(trk)
+    TKc = trk.cls("Task")
+    tt = trk.methods(TKc).get("target_throughput")
+    if tt is None:
+        raise AnchorMissing("Task.target_throughput")
+
+    def parse(params):
+        """('none',) | ('value', v, unit) | ('raise', class name) | ('other', repr)"""
+        m = _Machine(trk)
+        task = _Obj("task", cls=TKc, params=dict(params), clients=4, name="t", schedule=None)
+        try:
+            r = m.load(task, "target_throughput", tt)
+        except _Rse as x:
+            return ("raise", x.name())
+        if r is None:
+            return ("none",)
+        vu = _value_and_unit(r)
+        return ("value", vu[0], vu[1]) if vu is not None else ("other", repr(r))
+
+    def show(o):
+        return "None (unthrottled)" if o[0] == "none" else f"rejected ({o[1]})" if o[0] == "raise" else f"{o[1]:g} {o[2]}" if o[0] == "value" else f"unrecognised result {o[1]}"
+
+    IV, TV = "target-interval", "target-throughput"
+    CASES = [  # (label, [(task parameters, expected)]) expected: None | 'raise' | (value, unit)
+        ("neither given", [({}, None)]),
+        ("both given", [({IV: 4, TV: 10}, "raise")]),
+        ("interval numeric", [({IV: 4}, (0.25, "ops/s")), ({IV: 0.5}, (2.0, "ops/s"))]),
+        ("interval not numeric", [({IV: "abc"}, "raise")]),
+        ("throughput numeric", [({TV: 10}, (10.0, "ops/s")), ({TV: 2.5}, (2.5, "ops/s"))]),
+        ("throughput well-formed string", [({TV: "2.5 docs/s"}, (2.5, "docs/s")), ({TV: "100 ops/s"}, (100.0, "ops/s"))]),
+        ("throughput malformed string", [({TV: "fast"}, "raise")]),
+        ("throughput of another type", [({TV: [1]}, "raise")]),
+    ]
+
+    def agrees(got, want):
+        if want is None:
+            return got[0] == "none"
+        if want == "raise":
+            return got[0] == "raise"
+        return got[0] == "value" and _close(got[1], want[0]) and got[2] == want[1]
+
+    for label, rows in CASES:
+        try:
+            got = [(p_, parse(p_), w_) for p_, w_ in rows]
+        except CannotEval as e:
+            chk.unknown(rid, f"target_throughput is not evaluable on representative task parameters ({label}): {e}", tt)
+            break
+        bad = [(p_, g_, w_) for p_, g_, w_ in got if not agrees(g_, w_)]
+        if any(g_[0] == "other" for _, g_, _ in bad):
+            chk.unknown(rid, f"target_throughput returns something that is not a (number, unit string) pair ({label}): {[g_[1] for _, g_, _ in bad if g_[0] == 'other'][0]}", tt)
+            break
+        chk.ob(rid, f"{label}", not bad, tt, "; ".join(f"{p_} => {show(g_)}" + ("" if agrees(g_, w_) else f", documented: {show(('none',) if w_ is None else ('raise', 'invalid') if w_ == 'raise' else ('value',) + w_)}")
+                                                        for p_, g_, w_ in got), key=f"esrally/track/track.py:Task.target_throughput:{label}")
+    try:
+        g1, g2, g3 = parse({TV: "7 pages/s"}), parse({TV: "7 pages"}), parse({TV: "7pages/s"})
+        chk.ob(rid, "string form parsed into value / unit (unit ends in /s)", agrees(g1, (7.0, "pages/s")) and g2[0] == "raise" and g3[0] == "raise", tt,
+               f"'7 pages/s' => {show(g1)}; '7 pages' => {show(g2)}; '7pages/s' => {show(g3)}", key="esrally/track/track.py:Task.target_throughput:string form value / unit")
+        throughput_pattern_rule(chk, rid, trk)
+        gi, gt, gn = parse({IV: 4}), parse({TV: 10}), parse({"target_interval": 4, "target_throughput": 10, "interval": 4, "throughput": 10})
+        chk.ob(rid, "read from the keys target-throughput / target-interval", gi[0] == "value" and gt[0] == "value" and gn[0] == "none", tt,
+               f"{{'{IV}': 4}} => {show(gi)}; {{'{TV}': 10}} => {show(gt)}; other spellings of the keys => {show(gn)}", key="esrally/track/track.py:Task.target_throughput:keys")
+    except CannotEval as e:
+        chk.unknown(rid, f"target_throughput is not evaluable on representative task parameters: {e}", tt)
+
+
+def unit_aware_rule(chk, rid, sch):
+    """UnitAwareScheduler decided on VALUES. The scheduler is built by walking its own __init__ (arguments in the roles scheduler_for passes them: the task, the delegate class) and
+    fed the feedback sequence of a client, `after_request(now, weight, unit, meta)` in the documented positional order; after every call the gap between consecutive requests is
+    read off `next(0)` with the module's own deterministic scheduler as the delegate class (so the whole composition is evaluated: theta, 1/theta, delegation), and the theta
+    handed to the delegate's constructor is captured with an opaque delegate class. Whatever the locals / attributes are called, whether the parsed throughput is cached, read into
+    a local or re-read, and however the unit test is nested: only the resulting gaps count. Task: target throughput T with unit U, C = 4 clients.
+      S1  T = 1000 docs/s; feedback (5000 docs), (2500 docs), (0 docs), (5000 docs)  => gaps 20 s, 10 s, 10 s (unchanged, no error), 20 s          [weight*C/T]
+      S2  T = 100 ops/s;  feedback (5000 docs), (2500 docs)                          => gaps 0.04 s, 0.04 s                                    [weight normalised to 1 on EVERY call]
+      S3  T = 100 ops/s;  feedback (3 ops)                                           => gap 0.12 s                                             [matching unit: weight kept]"""
+    UA, DS = sch.cls("UnitAwareScheduler"), sch.cls("DeterministicScheduler")
+    ar = _prop(sch, UA, "after_request")
+    _prop(sch, UA, "next")
+    sf = sch.func("scheduler_for")
+    sfp = _param(sf, 0)
+    ctor = [c for c in ast.walk(sf) if isinstance(c, ast.Call) and last_attr(c.func) == UA.name]
+    if len(ctor) != 1 or any(isinstance(a, ast.Starred) for a in ctor[0].args):
+        raise AnchorMissing("the construction UnitAwareScheduler(<task>, <delegate class>) in scheduler_for")
+    C = 4
+
+    def simulate(T, U, feedback, delegate):
+        """[(error of after_request | None, gap read off next(0) | error name, thetas captured at the delegate's construction)] per feedback call"""
+        captured = []
+
+        def hook(f, args, kwargs):
+            if f is delegate:
+                captured.append([x for x in list(args) + list(kwargs.values()) if isinstance(x, (int, float)) and not isinstance(x, bool)])
+                return _Obj("delegate", on_call=lambda attr, a, k: _Sym("delegate." + attr, *a))
+            return _MISSING
+
+        m = _Machine(sch, on_opaque_call=hook)
+        task = _Obj("task", target_throughput=_Obj("throughput", value=T, unit=U), clients=C, name="t")
+        role = lambda e: task if isinstance(e, ast.Name) and e.id == sfp else delegate  # noqa: E731
+        ua = m.instantiate(_Cls(UA), [role(a) for a in ctor[0].args], {k.arg: role(k.value) for k in ctor[0].keywords if k.arg})
+        out = []
+        for w, unit in feedback:
+            del captured[:]
+            try:
+                m.call(m.load(ua, "after_request"), [123.0, w, unit, {}], {})
+                err = None
+            except _Rse as x:
+                err = x.name()
+            try:
+                gap = m.call(m.load(ua, "next"), [0.0], {})
+            except _Rse as x:
+                gap = x.name()
+            out.append((err, gap, [t for c in captured for t in c]))
+        return out
+
+    try:
+        det = _Cls(DS)
+        opq = _Opaque("delegate class")
+        s1, s1o = simulate(1000.0, "docs/s", [(5000, "docs"), (2500, "docs"), (0, "docs"), (5000, "docs")], det), simulate(1000.0, "docs/s", [(5000, "docs"), (2500, "docs")], opq)
+        s2, s3 = simulate(100.0, "ops/s", [(5000, "docs"), (2500, "docs")], det), simulate(100.0, "ops/s", [(3, "ops")], det)
+    except CannotEval as e:
+        chk.unknown(rid, f"UnitAwareScheduler is not evaluable on the representative feedback sequences: {e}", ar)
+        return
+
+    def gaps(run_):
+        return ", ".join((f"{g:g}s" if isinstance(g, (int, float)) else str(g)) + (f" (after_request raised {e})" if e else "") for e, g, _ in run_)
+
+    def is_gap(r, want):
+        return r[0] is None and _close(r[1], want)
+
+    th = s1o[0][2]
+    ok = is_gap(s1[0], 5000 * C / 1000.0) and len(th) >= 1 and any(_close(t, 1000.0 / C / 5000) for t in th)
+    chk.ob(rid, "unit-aware: theta == T / clients / weight (gap == weight*C/T)", ok, ar,
+           f"T = 1000 docs/s, {C} clients, first request reports 5000 docs: delegate built with theta {th} (expected {1000.0 / C / 5000:g}); with the deterministic delegate the gap is {gaps(s1[:1])} (expected {5000 * C / 1000.0:g}s)",
+           key=f"{_S}:UnitAwareScheduler.after_request:theta")
+    ok = is_gap(s1[1], 2500 * C / 1000.0) and any(_close(t, 1000.0 / C / 2500) for t in s1o[1][2])
+    chk.ob(rid, "current weight updated from the reported weight before theta is computed", ok, ar,
+           f"second request reports 2500 docs: gaps {gaps(s1[:2])} (expected 20s, 10s); theta {s1o[1][2]} (expected {1000.0 / C / 2500:g})", key=f"{_S}:UnitAwareScheduler.after_request:weight-before-theta")
+    ok = is_gap(s2[0], C / 100.0) and is_gap(s2[1], C / 100.0) and is_gap(s3[0], 3 * C / 100.0)
+    chk.ob(rid, "ops/s target with another unit: weight normalised to 1 on every call (not only the first)", ok, ar,
+           f"T = 100 ops/s, requests report 5000 docs, then 2500 docs: gaps {gaps(s2)} (expected {C / 100.0:g}s each); a request reporting 3 ops: gap {gaps(s3)} (expected {3 * C / 100.0:g}s)",
+           key=f"{_S}:UnitAwareScheduler.after_request:ops-normalisation")
+    ok = is_gap(s1[2], 2500 * C / 1000.0) and is_gap(s1[3], 5000 * C / 1000.0) and is_gap(s1[0], 5000 * C / 1000.0) and is_gap(s1[1], 2500 * C / 1000.0)
+    chk.ob(rid, "delegate scheduler rebuilt with the new theta", ok, ar,
+           f"weights 5000, 2500, 0 (failed request), 5000: gaps {gaps(s1)} (expected 20s, 10s, 10s unchanged and no error, 20s)", key=f"{_S}:UnitAwareScheduler.after_request:rebuilt")
+
+
+class _ScheduleRun:
+    """One walk of driver.schedule_for(task_allocation, parameter_source) by the local machine for a representative task. Everything a rule wants to know is read off the
+    OBJECTS that result, so that it does not matter which helper function builds what, what locals are called or how the choice is spelled:
+      handle     the object schedule_for returns (an instance of ScheduleHandle built by walking its __init__)
+      control    the IterationBased / TimePeriodBased instance constructed during the walk (with the constructor arguments it received, by parameter name)
+      roles      attribute of the handle -> role, by identity of the value stored there: 'control', 'scheduler' (what scheduler.scheduler_for returned), 'runner' (what
+                 runner.runner_for returned), 'params' (what the parameter source's partition call returned), 'allocation'
+      partition  the argument lists of the calls made on the parameter source
+    The allocation is client 1 of 3 of its task, client 5 of 8 of the schedule element (distinct values, so that provenance shows)."""
+
+    def __init__(self, drv, fields, params_infinite=True, runner_completed=None, ramp_up=None):
+        self.drv = drv
+        self.machine = m = _Machine(drv, on_opaque_call=self._opaque_call)
+        self.partition = []
+        self.params = _Obj("partitioned parameter source", infinite=params_infinite, percent_completed=_Sym("params.percent_completed"), on_call=lambda attr, a, k: _Opaque(f"params.{attr}()"))
+        self.scheduler = None
+        self.runner = None
+        self.runner_completed = runner_completed
+        self.task = _Obj("task", clients=3, name="t", schedule=None, operation=_Obj("operation", type="search", name="search"), ramp_up_time_period=ramp_up,
+                         **{f: fields.get(f) for f, _, _ in _MIX_FIELDS})
+        self.allocation = _Obj("task_allocation", task=self.task, client_index_in_task=1, global_client_index=5, total_clients=8)
+
+        def psource_call(attr, args, kwargs):
+            self.partition.append((attr, list(args) + list(kwargs.values())))
+            return self.params
+
+        self.source = _Obj("parameter source", on_call=psource_call)
+        self.error = None
+        try:
+            self.handle = m.call(_Fn(drv.func("schedule_for")), [self.allocation, self.source], {})
+        except _Rse as x:
+            self.handle, self.error = None, x.name()
+        IB, TB = drv.cls("IterationBased"), drv.cls("TimePeriodBased")
+        self.controls = [o for o in m.created if o.cls is IB or o.cls is TB]
+        self.control = self.controls[-1] if self.controls else None
+        self.roles = {}
+        if isinstance(self.handle, _Obj):
+            for a, v in self.handle.fields.items():
+                r = "control" if any(v is c for c in self.controls) else "scheduler" if v is self.scheduler and v is not None else "runner" if v is self.runner and v is not None \
+                    else "params" if v is self.params else "allocation" if v is self.allocation else None
+                if r:
+                    self.roles[a] = r
+
+    def _opaque_call(self, f, args, kwargs):
+        last = f.label.split(".")[-1]
+        if last == "scheduler_for" and self.scheduler is None:
+            self.scheduler = _Obj("scheduler", on_call=lambda attr, a, k: _Sym("scheduler." + attr, *a))
+            return self.scheduler
+        if last == "runner_for" and self.runner is None:
+            self.runner = _Obj("runner", completed=self.runner_completed, percent_completed=None)
+            return self.runner
+        return _MISSING
+
+    def attr_of(self, role):
+        hits = [a for a, r in self.roles.items() if r == role]
+        return hits[0] if len(hits) == 1 else None
+
+    def kind(self):
+        return None if self.control is None else self.control.cls.name
+
+
+def loop_control_flow_rule(chk, rid, drv, it_params, tp_params):
+    """Which loop control a task gets and what it is constructed with, decided on VALUES: schedule_for is walked by the local machine (every module-level helper it calls is
+    followed, requires_time_period_schedule included; IterationBased / TimePeriodBased / ScheduleHandle are instantiated by walking their own __init__) for representative tasks;
+    the control object that results is inspected: its class, the constructor arguments it received (by the POSITION of the constructor's parameters, as O5.1 / O5.2 name them)
+    and whether it is the object stored in the handle schedule_for returns. Field values are pairwise distinct (3 / 7 iterations, 30 / 120 seconds)."""
+    sfn, rq = drv.func("schedule_for"), drv.func("requires_time_period_schedule")
+    W, I = it_params
+    Wt, T = tp_params
+    try:
+        ri = _ScheduleRun(drv, {"warmup_iterations": 3, "iterations": 7})
+        rt = _ScheduleRun(drv, {"warmup_time_period": 30, "time_period": 120})
+        rows = [("warm-up iterations 3, iterations 7", ri), ("warm-up period 30 s, period 120 s", rt),
+                ("no iteration / time field, infinite parameter source", _ScheduleRun(drv, {}, True, None)), ("no iteration / time field, finite parameter source", _ScheduleRun(drv, {}, False, None))]
+    except CannotEval as e:
+        chk.unknown(rid, f"schedule_for is not evaluable on the representative tasks: {e}", sfn)
+        return
+    for label, r in rows:
+        if r.control is None:
+            chk.unknown(rid, f"schedule_for constructs neither IterationBased nor TimePeriodBased for a task with {label}" + (f" (it raises {r.error})" if r.error else ""), sfn)
+            return
+
+    def arg(r, cls_name, param, want, what):
+        got = r.control.ctor.get(param, _MISSING) if r.kind() == cls_name else _MISSING
+        chk.ob(rid, what, got is not _MISSING and got == want and type(got) is type(want), sfn,
+               f"{r.kind()}({', '.join(f'{k}={v!r}' for k, v in r.control.ctor.items())}) for a task with " + ("warm-up iterations 3, iterations 7" if r is ri else "warm-up period 30 s, period 120 s"))
+
+    arg(ri, "IterationBased", W, 3, "IterationBased(warm-up := task.warmup_iterations)")
+    arg(ri, "IterationBased", I, 7, "IterationBased(iterations := task.iterations)")
+    arg(rt, "TimePeriodBased", Wt, 30, "TimePeriodBased(warm-up := task.warmup_time_period)")
+    arg(rt, "TimePeriodBased", T, 120, "TimePeriodBased(period := task.time_period)")
+    bad, seen = [], []
+    try:
+        for label, r in rows:
+            if r.runner is None:
+                raise CannotEval("the runner schedule_for hands to requires_time_period_schedule is not located (no call of <module>.runner_for)")
+            want = r.machine.truth(r.machine.call(_Fn(rq), [r.task, r.runner, r.params], {}))
+            seen.append(f"{label}: {r.kind()}")
+            if (r.kind() == "TimePeriodBased") != want:
+                bad.append(f"{label}: requires_time_period_schedule is {want}, the control is {r.kind()}")
+        chk.ob(rid, "time-based control iff requires_time_period_schedule", not bad, sfn, "; ".join(bad or seen))
+    except CannotEval as e:
+        chk.unknown(rid, f"requires_time_period_schedule is not evaluable on the objects schedule_for works with: {e}", rq)
+    # the chosen control reaches the schedule handle
+    SH = drv.cls("ScheduleHandle")
+    if not all(isinstance(r.handle, _Obj) and r.handle.cls is SH for _, r in rows):
+        chk.unknown(rid, "schedule_for does not return an object built from ScheduleHandle on the representative tasks: " + ", ".join(f"{r.handle!r}" + (f" (raises {r.error})" if r.error else "") for _, r in rows), sfn)
+        return
+    lost = [label for label, r in rows if len(r.controls) != 1 or r.attr_of("control") is None]
+    chk.ob(rid, "the chosen loop control is handed to the schedule handle", not lost, sfn,
+           "; ".join(f"{label}: {len(r.controls)} control(s) constructed, handle fields holding one: {[a for a, x in r.roles.items() if x == 'control']}" for label, r in rows if label in lost)
+           or f"stored as self.{ri.attr_of('control')}")
+
+
+def generator_rule(chk, rid, drv):
+    """The schedule generator ScheduleHandle.__call__ decided on VALUES. The handle is the object a walk of schedule_for returns (so every attribute role - progress control,
+    scheduler, runner, parameter source - is known by the identity of what schedule_for stored there, not by an attribute name); its progress control is replaced by a recording
+    stand-in and the generator's statements are walked by the local machine in two modes:
+      finite    control.infinite is False, control.completed turns True after K = 3 calls of control.next()
+      infinite  control.infinite is True (the parameter source ends the schedule); the walk is cut after three complete iterations
+    The stand-in's sample_type / percent_completed carry the number of next() calls made so far, the scheduler's next(x) is the symbolic value scheduler.next(x). The recorded
+    event sequence (completion tests, yields with their tuples, next() calls, scheduler calls) is then judged. One loop or two, `while True` + break, local closures chosen per
+    mode, the control read into a local, try/except inside or around the loop: all the same to this rule."""
+    SH = drv.cls("ScheduleHandle")
+    gen = _prop(drv, SH, "__call__")
+    base = _ScheduleRun(drv, {"warmup_iterations": 3, "iterations": 7})
+    if not (isinstance(base.handle, _Obj) and base.handle.cls is SH):
+        raise AnchorMissing("the ScheduleHandle object schedule_for returns" + (f" (schedule_for raises {base.error})" if base.error else ""))
+    pc_attr, sched_attr, runner_attr = base.attr_of("control"), base.attr_of("scheduler"), base.attr_of("runner")
+    if pc_attr is None:
+        raise AnchorMissing("the attribute of ScheduleHandle that holds the loop control schedule_for constructs")
+    K, CUT = 3, 3
+
+    def walk(infinite):
+        r = _ScheduleRun(drv, {"warmup_iterations": 3, "iterations": 7})
+        ev_ = []
+        state = {"next": 0}
+
+        def pc_load(attr):
+            if attr == "infinite":
+                return infinite
+            if attr == "completed":
+                ev_.append(("completed", state["next"]))
+                return (not infinite) and state["next"] >= K
+            if attr in ("sample_type", "percent_completed"):
+                return _Sym(attr, state["next"])
+            return _MISSING
+
+        def pc_call(attr, args, kwargs):
+            if attr == "next" and not args and not kwargs:
+                state["next"] += 1
+                ev_.append(("next",))
+                return None
+            return _MISSING
+
+        def sched_call(attr, args, kwargs):
+            ev_.append(("scheduler." + attr,) + tuple(args))
+            return _Sym("scheduler." + attr, *args)
+
+        def on_yield(v, node):
+            if sum(1 for e in ev_ if e[0] == "yield") >= max(K + 2, CUT):
+                raise _Stop()
+            ev_.append(("yield", v, node))
+            return None
+
+        h = r.handle
+        h.fields[pc_attr] = _Obj("progress control", on_load=pc_load, on_call=pc_call)
+        if sched_attr is not None:
+            h.fields[sched_attr].on_call = sched_call
+        r.machine.on_yield = on_yield
+        ended = "end"
+        try:
+            r.machine.call(r.machine.load(h, "__call__", gen), [], {})
+        except _Stop:
+            ended = "cut"
+        except _Rse as x:
+            ended = f"raises {x.name()}"
+        return r, ev_, ended
+
+    nest = [_Sym("scheduler.next", 0)]
+    for _ in range(K + 3):
+        nest.append(_Sym("scheduler.next", nest[-1]))
+
+    def fmt(ev_):
+        out = []
+        for e in ev_:
+            out.append("yield" if e[0] == "yield" else f"completed?@{e[1]}" if e[0] == "completed" else "next()" if e[0] == "next" else f"{e[0]}(..)")
+        return " ".join(out)
+
+    results = {}
+    for name, infinite in (("finite", False), ("infinite", True)):
+        try:
+            results[name] = walk(infinite)
+        except CannotEval as e:
+            chk.unknown(rid, f"the schedule generator is not evaluable with a {name} progress control: {e}", gen)
+    if "finite" in results:
+        r, ev_, ended = results["finite"]
+        ys = [e for e in ev_ if e[0] == "yield"]
+        # every iteration is preceded by a completion test made on the control's current state, and the generator ends after exactly K yields
+        tests_ok = all(any(e[0] == "completed" and e[1] == j for e in ev_[:ev_.index(y)]) for j, y in enumerate(ys))
+        chk.ob(rid, "finite loop guard == not completed", ended == "end" and len(ys) == K and tests_ok, gen,
+               f"control completes after {K} next(): {len(ys)} request(s) yielded, generator {'ends' if ended == 'end' else 'still running after ' + str(len(ys)) + ' yields' if ended == 'cut' else ended}; events: {fmt(ev_)}")
+    if "infinite" in results:
+        r, ev_, ended = results["infinite"]
+        tests = [e for e in ev_ if e[0] == "completed"]
+        chk.ob(rid, "finite loop iff the progress control is finite", not tests and ended == "cut", gen,
+               f"infinite control (its completion is undefined): {len(tests)} completion test(s) in three iterations, generator {'keeps yielding' if ended == 'cut' else ended}; events: {fmt(ev_[:12])}")
+    firsts = []
+    for name in ("finite", "infinite"):
+        if name not in results:
+            continue
+        r, ev_, ended = results[name]
+        ys = [e for e in ev_ if e[0] == "yield"][:K]
+        if not ys:
+            chk.unknown(rid, f"{name}: the generator yields nothing on the representative control ({ended}; events: {fmt(ev_)})", gen)
+            continue
+        site = ys[0][2]
+        idx = [ev_.index(y) for y in ys]
+        segs = [ev_[:idx[0]]] + [ev_[idx[j - 1] + 1:idx[j]] for j in range(1, len(ys))]
+        tail = ev_[idx[-1] + 1:] if name == "finite" else None
+
+        def count(seg, kind):
+            return sum(1 for e in seg if e[0] == kind)
+
+        per = [(count(sg, "next"), count(sg, "scheduler.next")) for sg in segs]
+        ok = len(ys) == K and per[0] == (0, 1) and all(p_ == (1, 1) for p_ in per[1:]) and (tail is None or (count(tail, "next"), count(tail, "scheduler.next"), count(tail, "yield")) == (1, 0, 0))
+        chk.ob(rid, f"{name}: one yield, one next(), one sched.next per iteration", ok, site, f"(control next(), scheduler next()) before the first yield and between consecutive yields: {per}"
+               + (f", after the last yield: {(count(tail, 'next'), count(tail, 'scheduler.next'))}" if tail is not None else "") + f"; events: {fmt(ev_[:16])}")
+        # next() follows the yield and precedes everything that is read for the following request (completion test, sample type, progress)
+        order_ok = all(sg and sg[0] == ("next",) for sg in segs[1:]) and (tail is None or (tail and tail[0] == ("next",)))
+        vals_ok = all(isinstance(y[1], tuple) and len(y[1]) > 1 and y[1][1] == _Sym("sample_type", j) for j, y in enumerate(ys))
+        chk.ob(rid, f"{name}: next() exactly once after the yield", order_ok and vals_ok and ok, site,
+               f"sample type of request j read after {[y[1][1].parts[1] if isinstance(y[1], tuple) and len(y[1]) > 1 and isinstance(y[1][1], _Sym) and len(y[1][1].parts) > 1 else '?' for y in ys]} next() calls; events: {fmt(ev_[:16])}")
+        got0 = [y[1][0] if isinstance(y[1], tuple) and y[1] else None for y in ys]
+        chk.ob(rid, f"{name}: scheduled time threaded (next = sched.next(previous)) before the yield", got0 == nest[:len(ys)] and len(ys) == K, site, f"scheduled times of the first requests: {got0}")
+        firsts.append((name, got0[0], site))
+        tup_ok = all(isinstance(y[1], tuple) and len(y[1]) == 5 and isinstance(y[1][1], _Sym) and y[1][1].parts[0] == "sample_type" for y in ys)
+        if name == "finite":
+            tup_ok = tup_ok and all(y[1][2] == _Sym("percent_completed", j) for j, y in enumerate(ys))
+        if runner_attr is None:
+            chk.unknown(rid, "the attribute of ScheduleHandle that holds the runner is not located (schedule_for stores no result of <module>.runner_for in the handle)", gen)
+        else:
+            tup_ok = tup_ok and all(y[1][3] is r.handle.fields.get(runner_attr) for y in ys)
+            chk.ob(rid, f"{name}: yielded tuple (scheduled, sample type, progress, runner, params)", tup_ok, site, f"first yield: {ys[0][1]!r}")
+    if firsts:
+        chk.ob(rid, "first scheduled time derives from 0", len(firsts) == 2 and all(f_ == nest[0] for _, f_, _ in firsts), firsts[0][2], "; ".join(f"{n_}: {f_!r}" for n_, f_, _ in firsts))
+
+
+def _sample_kind(v):
+    """'Warmup' / 'Normal' for a member of metrics.SampleType (an opaque attribute chain of another module: its label ends in the member's name), else a printable form"""
+    lab = getattr(v, "label", None)
+    return lab.split(".")[-1] if isinstance(lab, str) and lab.split(".")[-1] in ("Warmup", "Normal") else repr(v)
+
+
+class _ControlRun:
+    """a loop control (IterationBased / TimePeriodBased) built by walking its own __init__ and driven through start() / next() on a virtual clock; properties are read by walking
+    their bodies. time.perf_counter() / time.monotonic() is the virtual time; time.time() is a WALL clock that a rule may let step backwards (an NTP correction)."""
+
+    def __init__(self, drv, cls, args, t=100.0, wall=None):
+        self.t = [t]
+        self.wall = wall or (lambda t_: 1.0e6 + t_)
+
+        def opaque_call(f, a, k):
+            if f.label in _CLOCKS and not a and not k:
+                return self.t[0]
+            if f.label == "time.time" and not a and not k:
+                return self.wall(self.t[0])
+            return _MISSING
+
+        self.m = _Machine(drv, on_opaque_call=opaque_call)
+        self.error = None
+        try:
+            self.obj = self.m.instantiate(_Cls(cls), list(args), {})
+        except _Rse as x:
+            self.obj, self.error = None, x.name()
+
+    def do(self, method, at=None):
+        if at is not None:
+            self.t[0] = at
+        try:
+            self.m.call(self.m.load(self.obj, method), [], {})
+            return None
+        except _Rse as x:
+            return f"raises {x.name()}"
+
+    def read(self, prop):
+        try:
+            return self.m.load(self.obj, prop)
+        except _Rse as x:
+            return f"raises {x.name()}"
+
+
+def iteration_control_rule(chk, rid, drv):
+    """IterationBased decided on VALUES: IterationBased(2, 3) (two warm-up iterations, three measured ones) is built by walking its __init__, started, and advanced with next();
+    before every next() the control's completed / sample_type / percent_completed are read (by walking the property bodies). The control is what the schedule generator sees
+    (O5.3 fixes when it reads what), so the six clauses are statements about these sequences - whatever the counter is called, however the total is kept, whichever way round the
+    comparisons are written."""
+    IB = drv.cls("IterationBased")
+    for m_ in ("__init__", "start", "next", "completed", "sample_type", "percent_completed", "infinite"):
+        _prop(drv, IB, m_)
+    WI, II = 2, 3
+    N = WI + II
+    c = _ControlRun(drv, IB, [WI, II])
+    if c.obj is None:
+        chk.ob(rid, "counter idiom", False, IB, f"IterationBased({WI}, {II}) {c.error}")
+        return
+    c.do("start")
+    seq = []
+    for k in range(N + 2):
+        done = c.read("completed")
+        seq.append((done, c.read("sample_type") if k < N else None, c.read("percent_completed") if k < N else None))
+        c.do("next")
+    c.do("start")
+    again = (c.read("completed"), c.read("sample_type"), c.read("percent_completed"))
+    prog = [p_ for _, _, p_ in seq[:N]]
+    kinds = [_sample_kind(st_) for _, st_, _ in seq[:N]]
+    dones = [d_ for d_, _, _ in seq]
+    nums = all(isinstance(p_, (int, float)) and not isinstance(p_, bool) for p_ in prog)
+    steps = [prog[k + 1] - prog[k] for k in range(N - 1)] if nums else []
+    ok = nums and all(_close(st_, 1.0 / N) for st_ in steps) and isinstance(again[2], (int, float)) and _close(again[2], prog[0]) and _sample_kind(again[1]) == kinds[0] and again[0] == dones[0]
+    chk.ob(rid, "counter idiom", ok, _prop(drv, IB, "next"),
+           f"IterationBased({WI}, {II}): progress before the k-th next(): {[round(p_, 4) if isinstance(p_, float) else p_ for p_ in prog]} (every next() must advance it by 1/{N}); after a second start(): "
+           f"progress {again[2]!r}, sample type {_sample_kind(again[1])} (as at the first start)")
+    chk.ob(rid, "completed == it >= W + I", dones == [False] * N + [True, True], _prop(drv, IB, "completed"), f"completed before the k-th next(), k = 0..{N + 1}: {dones} (expected False x {N}, then True)")
+    chk.ob(rid, "warm-up == it < W", kinds == ["Warmup"] * WI + ["Normal"] * II, _prop(drv, IB, "sample_type"), f"sample types of the {N} requests: {kinds}")
+    chk.ob(rid, "progress == (it + 1) / (W + I)", nums and all(_close(prog[k], (k + 1) / N) for k in range(N)) and prog[-1] == 1, _prop(drv, IB, "percent_completed"),
+           f"progress of the {N} requests: {[round(p_, 4) if isinstance(p_, float) else p_ for p_ in prog]} (expected {[round((k + 1) / N, 4) for k in range(N)]}, ending at exactly 1)")
+    inf = [(a, _ControlRun(drv, IB, a)) for a in ([WI, None], [WI, II], [0, 1])]
+    got = [(a, r.read("infinite") if r.obj is not None else r.error) for a, r in inf]
+    chk.ob(rid, "infinite == iterations is None", [g for _, g in got] == [True, False, False], _prop(drv, IB, "infinite"), "; ".join(f"IterationBased({a[0]}, {a[1]}).infinite is {g!r}" for a, g in got))
+    z, nz = _ControlRun(drv, IB, [0, 0]), _ControlRun(drv, IB, [0, 1])
+    chk.ob(rid, "W + I == 0 rejected", z.obj is None and nz.obj is not None, _prop(drv, IB, "__init__"),
+           f"IterationBased(0, 0) {'raises ' + str(z.error) if z.obj is None else 'is accepted'}; IterationBased(0, 1) {'raises ' + str(nz.error) if nz.obj is None else 'is accepted'}")
+
+
+def time_control_rule(chk, rid, drv):
+    """TimePeriodBased decided on VALUES: TimePeriodBased(10, 20) (10 s warm-up, 20 s measurement) is built by walking its __init__ at virtual time 50, started at 100 and advanced
+    with next() at chosen virtual times; after each call completed / sample_type / percent_completed are read. Comparator strictness at the exact boundaries is left open (the
+    property allows the straddling request either side): probes lie 0.1 s before / after a boundary. No attribute or helper-property name of the class is consulted."""
+    TB = drv.cls("TimePeriodBased")
+    for m_ in ("__init__", "start", "next", "completed", "sample_type", "percent_completed", "infinite"):
+        _prop(drv, TB, m_)
+    WT, TP, S = 10.0, 20.0, 100.0
+    PROBES = [3.0, 9.9, 10.1, 15.0, 29.9, 30.1]  # seconds after start() at which next() is called
+
+    def drive(args, probes, wall=None):
+        """[(seconds after start, completed, sample kind, progress)] right after start() (0.0) and after a next() at every probe"""
+        c = _ControlRun(drv, TB, args, t=50.0, wall=wall)
+        if c.obj is None:
+            return None, c.error
+        c.do("start", at=S)
+        out = [(0.0, c.read("completed") if args[1] is not None else None, _sample_kind(c.read("sample_type")), c.read("percent_completed") if args[1] is not None else None)]
+        for d in probes:
+            e = c.do("next", at=S + d)
+            out.append((d, e or (c.read("completed") if args[1] is not None else None), _sample_kind(c.read("sample_type")), c.read("percent_completed") if args[1] is not None else None))
+        return out, None
+
+    seq, err = drive([WT, TP], PROBES)
+    if seq is None:
+        chk.ob(rid, "elapsed == now - start", False, TB, f"TimePeriodBased({WT:g}, {TP:g}) {err}")
+        return
+    by = {d: (done, kind, p_) for d, done, kind, p_ in seq}
+
+    def pr(d):
+        p_ = by[d][2]
+        return round(p_, 4) if isinstance(p_, float) else p_
+
+    def isnum(x):
+        return isinstance(x, (int, float)) and not isinstance(x, bool)
+
+    f_el, f_st, f_co, f_pc = (_prop(drv, TB, n_) for n_ in ("start", "sample_type", "completed", "percent_completed"))
+    ok = isnum(by[0.0][2]) and _close(by[0.0][2], 0.0) and isnum(by[3.0][2]) and _close(by[3.0][2] * (WT + TP), 3.0)
+    chk.ob(rid, "elapsed == now - start", ok, f_pc, f"built at virtual time 50, started at {S:g}: progress right after start() {pr(0.0)!r} (expected 0), after a next() 3 s later {pr(3.0)!r} (expected {3 / (WT + TP):.4f}: 3 s of {WT + TP:g} s)")
+    kinds = [by[d][1] for d in [0.0] + PROBES]
+    chk.ob(rid, "warm-up == elapsed < warm-up period (direction)", kinds == ["Warmup", "Warmup", "Warmup", "Normal", "Normal", "Normal", "Normal"], f_st,
+           f"sample type at start + {[0.0] + PROBES} s with a warm-up period of {WT:g} s: {kinds}")
+    dones = [by[d][0] for d in [0.0] + PROBES]
+    chk.ob(rid, "completed == now >= start + warm-up + period (direction)", dones == [False] * 6 + [True], f_co, f"completed at start + {[0.0] + PROBES} s with {WT:g} s + {TP:g} s: {dones}")
+    want = [d / (WT + TP) for d in [0.0] + PROBES[:-1]]
+    got = [by[d][2] for d in [0.0] + PROBES[:-1]]
+    chk.ob(rid, "progress == elapsed / (warm-up + period)", all(isnum(g) and _close(g, w_) and -1e-12 <= g <= 1 + 1e-12 for g, w_ in zip(got, want)), f_pc,
+           f"progress at start + {[0.0] + PROBES[:-1]} s: {[round(g, 4) if isinstance(g, float) else g for g in got]} (expected {[round(w_, 4) for w_ in want]})")
+    # next() never moves the start: after next() calls at +3 and +9.9 the progress at +15 is still measured from start()
+    chk.ob(rid, "start written only by start()", isnum(by[15.0][2]) and _close(by[15.0][2], 15.0 / (WT + TP)) and by[15.0][1] == "Normal", _prop(drv, TB, "next"),
+           f"after next() at start + 3, 9.9, 10.1 s the control reports at start + 15 s: progress {pr(15.0)!r} (expected 0.5), sample type {by[15.0][1]} (a next() that re-bases the start gives 0 / Warmup)")
+    # the same walk with a wall clock that is set back by 50 s between start + 10.1 s and start + 15 s: nothing the control reports may depend on it
+    wseq, werr = drive([WT, TP], PROBES, wall=lambda t_: 1.0e6 + t_ - (50.0 if t_ >= S + 12.0 else 0.0))
+    chk.ob(rid, "now only from the monotonic clock in start()/next()", wseq == seq, _prop(drv, TB, "next"),
+           "wall clock (time.time()) set back by 50 s at start + 12 s, monotonic clock unaffected: the control reports " +
+           ("the same values" if wseq == seq else f"{[(d, done, kind, round(p_, 4) if isinstance(p_, float) else p_) for d, done, kind, p_ in (wseq or [])][3:6]} at start + 10.1 / 15 / 29.9 s "
+            f"instead of {[(d, done, kind, round(p_, 4) if isinstance(p_, float) else p_) for d, done, kind, p_ in seq][3:6]}: it reads the wall clock, sample types return to warm-up / the period is extended" + (f" ({werr})" if werr else "")))
+    # a control whose end the parameter source decides (no period) still leaves warm-up: every next() reads the clock
+    iseq, ierr = drive([WT, None], [9.9, 10.1, 15.0])
+    ikinds = [k_ for _, _, k_, _ in iseq] if iseq is not None else ierr
+    chk.ob(rid, "the clock is read on every call of start()/next() (unconditionally)", ikinds == ["Warmup", "Warmup", "Normal", "Normal"] and kinds[3:] == ["Normal"] * 4, _prop(drv, TB, "next"),
+           f"TimePeriodBased({WT:g}, None) (the parameter source ends the task): sample type at start + [0, 9.9, 10.1, 15] s: {ikinds}" +
+           ("" if ikinds == ["Warmup", "Warmup", "Normal", "Normal"] else ": `now` never advances, every sample stays warm-up"), key=f"{_D}:TimePeriodBased:now-unconditional")
+    chk.ob(rid, "start() sets start to the current clock", isnum(by[0.0][2]) and _close(by[0.0][2], 0.0) and by[0.0][1] == "Warmup" and by[0.0][0] is False and by[9.9][1] == "Warmup" and by[10.1][1] == "Normal", f_el,
+           f"built at virtual time 50, start() at {S:g}: right after start() progress {pr(0.0)!r}, completed {by[0.0][0]!r}, sample type {by[0.0][1]}; warm-up ends between start + 9.9 s and start + 10.1 s: {by[9.9][1]} / {by[10.1][1]}")
+
+
+def simple_schedulers_rule(chk, rid, sch):
+    """the three delegate schedulers decided on VALUES: each is built by walking its own __init__ with (task, theta = 4 requests/s) - the positional order UnitAwareScheduler uses -
+    and asked for next(10.0). random.expovariate(l) is a recording stand-in that returns 7 / l."""
+    DS, PS, UT = sch.cls("DeterministicScheduler"), sch.cls("PoissonScheduler"), sch.cls("Unthrottled")
+    dn, pn, un = _prop(sch, DS, "next"), _prop(sch, PS, "next"), _prop(sch, UT, "next")
+    draws = []
+
+    def opaque_call(f, a, k):
+        if f.label == "random.expovariate" and len(a) == 1 and isinstance(a[0], (int, float)):
+            draws.append(a[0])
+            return 7.0 / a[0]
+        return _MISSING
+
+    def nxt(cls, args, current):
+        m = _Machine(sch, on_opaque_call=opaque_call)
+        try:
+            return m.call(m.load(m.instantiate(_Cls(cls), args, {}), "next"), [current], {})
+        except _Rse as x:
+            return f"raises {x.name()}"
+
+    task = _Obj("task", clients=4, name="t")
+    d = nxt(DS, [task, 4.0], 10.0)
+    chk.ob(rid, "deterministic: next == current + 1/theta", _close(d, 10.25), dn, f"theta = 4 requests/s: next(10.0) == {d!r} (expected 10.25)")
+    p_ = nxt(PS, [task, 4.0], 10.0)
+    chk.ob(rid, "poisson: next == current + expovariate(theta)", _close(p_, 10.0 + 7.0 / 4.0) and draws == [4.0], pn,
+           f"theta = 4 requests/s, expovariate(l) := 7 / l: next(10.0) == {p_!r} (expected 11.75), expovariate called with {draws} (expected [4.0])")
+    u0 = nxt(UT, [], 10.0)
+    chk.ob(rid, "unthrottled: next == 0", u0 == 0 and not isinstance(u0, bool), un, f"next(10.0) == {u0!r}")
+
+
+def unthrottled_choice_rule(chk, rid, sch):
+    """when a task runs unthrottled, decided on VALUES: run_unthrottled(task) and scheduler_for(task) are walked for tasks with / without a target throughput. (For a throttled
+    task the walk of scheduler_for ends in the scheduler registry, which is filled at import time and not modelled: what is decided is that it does NOT hand out the unthrottled
+    scheduler before that.)"""
+    sf, ru, UT = sch.func("scheduler_for"), sch.func("run_unthrottled"), sch.cls("Unthrottled")
+    tt = _Obj("throughput", value=100.0, unit="ops/s")
+
+    def task(throughput, schedule):
+        return _Obj("task", target_throughput=throughput, schedule=schedule, clients=4, name="t")
+
+    def walk(f, t):
+        m = _Machine(sch)
+        try:
+            return m.call(_Fn(f), [t], {})
+        except _Rse as x:
+            return f"raises {x.name()}"
+
+    def is_unthrottled(r):
+        return isinstance(r, _Obj) and r.cls is UT
+
+    free, paced = walk(sf, task(None, None)), walk(sf, task(tt, None))
+    chk.ob(rid, "unthrottled scheduler iff run_unthrottled(task)", is_unthrottled(free) and not is_unthrottled(paced), sf,
+           f"task without target throughput: scheduler_for gives {free!r}; task with 100 ops/s: {paced!r}")
+    rows = [((None, None), True), ((tt, None), False), ((tt, "deterministic"), False), ((tt, "poisson"), False)]
+    got = [(a, walk(ru, task(*a))) for a, _ in rows]
+    chk.ob(rid, "unthrottled requires target throughput is None", [g for _, g in got] == [w_ for _, w_ in rows], ru,
+           "; ".join(f"target throughput {'100 ops/s' if a[0] is not None else None}, schedule {a[1]!r}: {g!r}" for a, g in got))
+
+
+def ramp_up_formula_rule(chk, rid, drv):
+    """ramp-up delay of client i == ramp-up * i / total, decided on VALUES: the handle is the object a walk of schedule_for returns for an allocation that is client 1 of 3 of its
+    task and client 5 of 8 of the schedule element, the task's ramp-up time period is 8 s; its ramp_up_wait_time (the property the executor reads) must be 5 s, and 0 without
+    ramp-up."""
+    SH = drv.cls("ScheduleHandle")
+    rw = _prop(drv, SH, "ramp_up_wait_time")
+    got = []
+    for ramp in (8.0, None):
+        r = _ScheduleRun(drv, {"warmup_iterations": 3, "iterations": 7}, ramp_up=ramp)
+        if not (isinstance(r.handle, _Obj) and r.handle.cls is SH):
+            raise AnchorMissing("the ScheduleHandle object schedule_for returns" + (f" (schedule_for raises {r.error})" if r.error else ""))
+        try:
+            got.append(r.machine.load(r.handle, "ramp_up_wait_time", rw))
+        except _Rse as x:
+            got.append(f"raises {x.name()}")
+    chk.ob(rid, "ramp-up wait == ramp * (i / total)", _close(got[0], 8.0 * 5 / 8) and (got[1] == 0 and not isinstance(got[1], bool)), rw,
+           f"ramp-up 8 s, client 5 of 8 (client 1 of 3 of its task): wait {got[0]!r} s (expected 5); without ramp-up: {got[1]!r} (expected 0)")
+
+
+def loop_control_choice_rule(chk, rid, drv):
+    """requires_time_period_schedule(task, runner, params) as a decision table over VALUES: the function (and whatever helper it calls) is walked for the 64 combinations of
+    {warm-up period, period, warm-up iterations, iterations} given / None, runner.completed given (False: a runner that knows about completion and is not done) / None,
+    params.infinite True / False, positional arguments in the order schedule_for passes them; the result is compared with the documented precedence."""
+    rq = drv.func("requires_time_period_schedule")
+    n_rows = 0
+    for vals in itertools.product([False, True], repeat=6):
+        env = dict(zip(["wt", "t", "wi", "i", "rc", "inf"], vals))
+        task = _Obj("task", warmup_time_period=30 if env["wt"] else None, time_period=120 if env["t"] else None, warmup_iterations=3 if env["wi"] else None, iterations=7 if env["i"] else None, name="t")
+        m = _Machine(drv)
+        try:
+            got = m.truth(m.call(_Fn(rq), [task, _Obj("runner", completed=False if env["rc"] else None), _Obj("params", infinite=env["inf"])], {}))
+        except _Rse as x:
+            chk.ob(rid, f"row {env}", False, rq, f"no decision: raises {x.name()}")
+            continue
+        except CannotEval as e:
+            chk.unknown(rid, f"requires_time_period_schedule is not evaluable on a task / runner / parameter source given by its fields ({', '.join(k for k, v in env.items() if v) or 'nothing set'}): {e}", rq)
+            return
+        if env["wt"] or env["t"]:
+            want = True
+        elif env["wi"] or env["i"]:
+            want = False
+        elif env["rc"]:
+            want = True
+        else:
+            want = not env["inf"]
+        n_rows += 1
+        if got != want:
+            chk.ob(rid, f"choice for {', '.join(k for k, v in env.items() if v) or 'nothing set'}", False, rq,
+                   f"chooses {'time-based' if got else 'iteration-based'}, documented: {'time-based' if want else 'iteration-based'}",
+                   key=f"{_D}:requires_time_period_schedule:{sorted(k for k, v in env.items() if v)}")
+    chk.ob(rid, "decision table rows evaluated", n_rows == 64, rq, f"{n_rows} of 64 cases agree with the documented precedence")
+
+
+_RUNTIME_ERRORS = ("AttributeError", "TypeError", "KeyError", "IndexError", "ZeroDivisionError", "ValueError", "NameError", "AssertionError", "re-raise")
+
+
+class _LoaderRun:
+    """A walk of TrackSpecificationReader.parse_task / parse_parallel by the local machine on a concrete task / parallel specification (plain dicts, as the JSON gives them).
+    The reader is an object of the class with only `name` set (the walked methods read nothing else); every construction track.Task(...) is recorded - the stand-in that comes
+    back has exactly the constructor's arguments as fields (bound by Task.__init__'s own signature, positional or keyword), so the validation statements that follow read what
+    the loader put there. A rejection is the loader's own error (TrackSyntaxError raised by self._error / raise); a Python runtime error means the walk is unreliable."""
+
+    def __init__(self, repo):
+        self.ldr, self.trk = repo.module("esrally/track/loader.py"), repo.module("esrally/track/track.py")
+        self.SR = self.ldr.cls("TrackSpecificationReader")
+        tinit = self.trk.methods(self.trk.cls("Task")).get("__init__")
+        if tinit is None:
+            raise AnchorMissing("track.Task.__init__")
+        self.task_params = params_of(tinit)[1:]
+        self.tasks = []
+
+        def opaque_call(f, args, kwargs):
+            if f.label.split(".")[-1] == "Task":
+                t = _Obj("task", **dict(zip(self.task_params, args)), **kwargs)
+                self.tasks.append(t)
+                return t
+            return _MISSING
+
+        self.m = _Machine(self.ldr, on_opaque_call=opaque_call)
+        self.reader = _Obj("reader", cls=self.SR, name="t")
+        self.ops = {"op1": _Obj("operation", name="op1", type="search")}
+
+    def call(self, method, spec):
+        """('ok', result) | ('rejected', error class) ; CannotEval when the walk hits a Python runtime error or something unmodelled"""
+        if self.ldr.methods(self.SR).get(method) is None:
+            raise AnchorMissing(f"TrackSpecificationReader.{method}")
+        try:
+            return "ok", self.m.call(self.m.load(self.reader, method), [spec, self.ops, "challenge"], {})
+        except _Rse as x:
+            if x.name().split(".")[-1] in _RUNTIME_ERRORS:
+                raise CannotEval(f"the walk of {method} ends in a {x.name()} at line {getattr(x.node, 'lineno', '?')}")
+            return "rejected", x.name()
+
+
+def parallel_defaults_rule(chk, rid, repo):
+    """TrackSpecificationReader.parse_parallel hands the iteration / time-period defaults written on the parallel element to the tasks inside it under the SAME meaning (four
+    ints: a swap type-checks and only shows when the two values differ). Decided on values: parse_parallel is walked for a parallel element that carries warm-up iterations 11 /
+    iterations 13 (resp. warm-up period 17 / period 19) around one task that says nothing itself; the track.Task(...) that results must carry each value in the constructor
+    argument of that meaning. How parse_task's parameters are called, in which order they are passed and through which helper does not matter."""
+    ldr = repo.module("esrally/track/loader.py")
+    chk.use(ldr)
+    pp = ldr.methods(ldr.cls("TrackSpecificationReader")).get("parse_parallel")
+    if pp is None:
+        raise AnchorMissing("TrackSpecificationReader.parse_parallel")
+    ROWS = [({"warmup-iterations": 11, "iterations": 13}, [("default_warmup_iterations", "warmup-iterations", "warmup_iterations"), ("default_iterations", "iterations", "iterations")]),
+            ({"warmup-time-period": 17, "time-period": 19}, [("default_warmup_time_period", "warmup-time-period", "warmup_time_period"), ("default_time_period", "time-period", "time_period")])]
+    for given, checks in ROWS:
+        try:
+            run_ = _LoaderRun(repo)
+            st, res = run_.call("parse_parallel", dict(given, tasks=[{"operation": "op1"}]))
+        except CannotEval as e:
+            chk.unknown(rid, f"parse_parallel is not evaluable on a parallel element with {given}: {e}", pp)
+            continue
+        if st != "ok" or len(run_.tasks) != 1:
+            chk.unknown(rid, f"parse_parallel on a parallel element with {given} and one task: {'rejected with ' + str(res) if st != 'ok' else str(len(run_.tasks)) + ' track.Task constructions'}", pp)
+            continue
+        t = run_.tasks[0]
+        all4 = {f: t.fields.get(f, _MISSING) for _, _, f in ROWS[0][1] + ROWS[1][1]}
+        for param, key, field in checks:
+            got = t.fields.get(field, _MISSING)
+            chk.ob(rid, f"parallel default '{key}' -> parse_task({param}=...)", got is not _MISSING and got == given[key] and not isinstance(got, bool), pp,
+                   f"parallel element {given}: the task inside is constructed with " + ", ".join(f"{f}={'<not passed>' if v is _MISSING else repr(v)}" for f, v in all4.items()),
+                   key=f"esrally/track/loader.py:parse_parallel:default:{param}")
+
+
+def iteration_time_mix_rule(chk, rid, repo):
+    """requires_time_period_schedule() lets any time-period field win over the iteration fields (O5.5 table), so `exactly warmup-iterations + iterations requests` holds for a
+    task only if no task carrying an iteration field AND a time-period field ever reaches the driver: the loader has to reject it (its own message: 'mixing time periods and
+    iterations is not allowed'). Decided on values: TrackSpecificationReader.parse_task is walked by the local machine for the 16 set/unset combinations of the four keys
+    (ramp-up unset) on a task specification given as a plain dict; the outcome is the loader's rejection (TrackSyntaxError via self._error / raise) or the constructed task.
+    Every mixed row must be rejected, every unmixed row accepted. Whether the validation sits in parse_task, in a helper it calls, before or after the Task construction, as an
+    if-chain or a table, is all the same. Where a field value comes from (the task itself or the default inherited from the parallel element) does not matter here."""
+    ldr = repo.module("esrally/track/loader.py")
+    chk.use(ldr)
+    pt = ldr.methods(ldr.cls("TrackSpecificationReader")).get("parse_task")
+    if pt is None:
+        raise AnchorMissing("TrackSpecificationReader.parse_task")
+    n_rows = 0
+    for vals in itertools.product([False, True], repeat=4):
+        names = [k for (_, k, _), given in zip(_MIX_FIELDS, vals) if given]
+        row = "+".join(names) or "none"
+        spec = {"operation": "op1"}
+        spec.update({k: v for (_, k, v), given in zip(_MIX_FIELDS, vals) if given})
+        try:
+            st, res = _LoaderRun(repo).call("parse_task", spec)
+        except CannotEval as e:
+            chk.unknown(rid, f"parse_task is not evaluable on a task specification with {', '.join(names) or 'no iteration / time-period key'} (row {row}): {e}", pt)
+            continue
+        n_rows += 1
+        rejected = st == "rejected"
+        wi, it, wt, tp = vals
+        mixed = (wi or it) and (wt or tp)
+        detail = f"the loader {'rejects' if rejected else 'accepts'} the task" + (f" ({res})" if rejected else "")
+        if mixed and not rejected:
+            detail += (f": it reaches the driver with both kinds of fields, requires_time_period_schedule() picks the time-based control and the "
+                       f"{' + '.join(n for n in names if 'iterations' in n)} written in the track are ignored"
+                       + (" (warm-up period without a period: the control is infinite, a task with a constant parameter source never ends)" if not tp else ""))
+        chk.ob(rid, f"task with {', '.join(names) or 'no iteration / time-period field'}: {'rejected by the loader (iterations mixed with time periods)' if mixed else 'accepted'}",
+               rejected == mixed, pt, detail, key=f"esrally/track/loader.py:TrackSpecificationReader.parse_task:mix:[{row}]")
+    chk.ob(rid, "iteration / time-period mixing table: all 16 rows evaluated", n_rows == 16, pt, f"{n_rows} of 16 rows")
+
+
 def run(chk):
     repo = chk.repo
     drv, sch = repo.module(_D), repo.module(_S)
     chk.use(drv, sch)
     chk.explanation = (
-        "Decides the loop-control and pacing skeleton: the iteration counter idiom with comparator strictness (>= W+I, < W, (it+1)/(W+I)); time-period guards by direction; "
-        "the schedule generator yields, then advances the progress control exactly once, threading the scheduled time; loop-control choice as a decision table; "
-        "field flow of warm-up/iteration/time fields into the loop controls; pacing formulas (1/theta, expovariate(theta), 0, theta = T/clients/weight) and the unit rule; "
-        "ramp-up formula and placement (progress timer started before the ramp-up wait, wait before the main loop, request schedule anchored at the end of the wait: "
-        "sleep-until duration evaluated on a virtual time line); the loader's iteration / time-period mixing table (16 rows: no task with both kinds of fields reaches the "
-        "loop-control choice); the progress aggregate printed for a step (table key and mean evaluated on sample records)."
+        "Decides the loop-control and pacing skeleton ON VALUES: the statements of the analysed functions are walked by a small local interpreter with representative inputs "
+        "(objects with named fields; classes of the analysed module instantiated by walking their own __init__; helper methods / functions / properties / local closures followed; "
+        "everything else an opaque object), nothing of the repository is imported or executed. IterationBased(2, 3) and TimePeriodBased(10, 20) driven through start() / next() on a "
+        "virtual clock (completion, warm-up flag, progress per step; an adversarial wall clock shows a non-monotonic time source); the schedule generator walked with a recording "
+        "progress control in finite and infinite mode (event order completion test / scheduler.next / yield / control.next, yielded tuples); schedule_for walked for representative "
+        "tasks (class and constructor arguments of the loop control that reaches the handle, partition arguments, ramp-up wait of client 5 of 8); requires_time_period_schedule as a "
+        "64-row value table; the delegate schedulers and UnitAwareScheduler fed feedback sequences (gap between requests == weight*C/T, ops/s normalisation on every call, failed "
+        "requests); AsyncExecutor.__call__ walked on a virtual clock up to its second request (timer started before the ramp-up wait, wait taken once, request due d after the END of "
+        "the wait); Task.target_throughput on representative task parameters and its pattern on the regex syntax tree; the loader's parse_parallel / parse_task walked on plain "
+        "dicts (defaults of a parallel element, 16-row iteration / time-period mixing table); the progress aggregate printed for a step (table key and mean evaluated on sample records)."
     )
     chk.not_decided = "the boundary request of time-based tasks, Poisson statistics, plugin schedulers, float rounding of progress."
     IB = drv.cls("IterationBased")
@@ -516,86 +2121,7 @@ def run(chk):
              "every iteration-based task: one request too many/few, the wrong number flagged warm-up, or progress not ending at exactly 1")
     init = _prop(drv, IB, "__init__")
     W, I = _param(init, 1), _param(init, 2)
-    attrs = {}
-    for n in walk_body(init):
-        if isinstance(n, ast.Assign) and len(n.targets) == 1 and is_self_attr(n.targets[0]):
-            attrs.setdefault(n.targets[0].attr, []).append(n.value)
-
-    def expand(e):
-        """substitute self._x attributes assigned in __init__ by their (first non-None) definitions over the constructor parameters."""
-        class T(ast.NodeTransformer):
-            def visit_Attribute(self, n):
-                if is_self_attr(n) and n.attr in attrs:
-                    vals = [v for v in attrs[n.attr] if not (isinstance(v, ast.Constant) and v.value is None)]
-                    if len(vals) == 1:
-                        return T().visit(source.clone(vals[0]))
-                return n
-
-        return T().visit(source.clone(e))
-
-    writers = {}
-    for m in drv.methods(IB).values():
-        for n in walk_body(m):
-            if isinstance(n, (ast.Assign, ast.AugAssign)):
-                for t in (n.targets if isinstance(n, ast.Assign) else [n.target]):
-                    if is_self_attr(t):
-                        writers.setdefault(t.attr, []).append((m.name, n))
-    it = None
-    for a, ws in writers.items():
-        if any(isinstance(n, ast.AugAssign) for _, n in ws):
-            it = a
-    if it is None:
-        raise AnchorMissing("iteration counter attribute (+= 1) in IterationBased")
-    ws = writers[it]
-    incs = [(m, n) for m, n in ws if isinstance(n, ast.AugAssign)]
-    zero = [(m, n) for m, n in ws if isinstance(n, ast.Assign) and source.is_const(n.value, 0)]
-    other = [(m, n) for m, n in ws if (m, n) not in incs and (m, n) not in zero and m != "__init__"]
-    ok = len(incs) == 1 and incs[0][0] == "next" and isinstance(incs[0][1].op, ast.Add) and source.is_const(incs[0][1].value, 1) and not guards(incs[0][1]) \
-        and len(zero) == 1 and zero[0][0] == "start" and not other
-    chk.ob("O5.1", "counter idiom", ok, incs[0][1] if incs else IB, f"increments={[(m, short(n, 30)) for m, n in incs]} resets={[(m, short(n, 30)) for m, n in zero]} other={[(m, short(n, 30)) for m, n in other]}")
-    comp = _single_return(_prop(drv, IB, "completed"))
-    ok = False
-    if comp is not None:
-        c = comparison(expand(comp))
-        if c:
-            l, op, r = c
-            if u(l) == f"self.{it}" and op == ">=":
-                ok = rat_equal(r, parse_expr(f"{W} + {I}"))
-            elif u(r) == f"self.{it}" and op == "<=":
-                ok = rat_equal(l, parse_expr(f"{W} + {I}"))
-            elif op in ("<=", ">=") and rat_equal(ast.BinOp(left=l, op=ast.Sub(), right=r), parse_expr(f"{W} + {I} - self.{it}")) and op == "<=":
-                ok = True
-    chk.ob("O5.1", "completed == it >= W + I", ok, _prop(drv, IB, "completed"), f"`{u(comp) if comp is not None else None}` expands to `{u(expand(comp)) if comp is not None else None}`")
-    st = _single_return(_prop(drv, IB, "sample_type"))
-    ok = False
-    if isinstance(st, ast.IfExp):
-        c = comparison(expand(st.test))
-        warm_first = last_attr(st.body) == "Warmup" and last_attr(st.orelse) == "Normal"
-        norm_first = last_attr(st.body) == "Normal" and last_attr(st.orelse) == "Warmup"
-        if c:
-            l, op, r = c
-            lt = (u(l) == f"self.{it}" and op == "<" and u(r) == W) or (u(r) == f"self.{it}" and op == ">" and u(l) == W)
-            ge = (u(l) == f"self.{it}" and op == ">=" and u(r) == W) or (u(r) == f"self.{it}" and op == "<=" and u(l) == W)
-            ok = (lt and warm_first) or (ge and norm_first)
-    chk.ob("O5.1", "warm-up == it < W", ok, _prop(drv, IB, "sample_type"), f"`{u(st) if st is not None else None}`")
-    pc = _single_return(_prop(drv, IB, "percent_completed"))
-    ok = pc is not None and rat_equal(expand(pc), parse_expr(f"(self.{it} + 1) / ({W} + {I})"))
-    chk.ob("O5.1", "progress == (it + 1) / (W + I)", ok, _prop(drv, IB, "percent_completed"), f"`{u(pc) if pc is not None else None}`")
-    inf = _single_return(_prop(drv, IB, "infinite"))
-    ok = inf is not None and pat.is_(expand(inf), f"{I} is None")
-    chk.ob("O5.1", "infinite == iterations is None", ok, _prop(drv, IB, "infinite"), f"`{u(inf) if inf is not None else None}`")
-    # zero total is rejected
-    zr = [n for n in walk_body(init) if isinstance(n, ast.Raise)]
-    # a guard fact `x == 0` (either orientation, either arm polarity) of the raise
-    ok = False
-    for f_ in (pat.fact_nodes(zr[0]) if zr else []):
-        c = oriented(f_, lambda n: not source.is_const(n, 0))
-        if c and c[1] == "==" and source.is_const(c[2], 0):
-            try:
-                ok = ok or rat_equal(expand(c[0]), parse_expr(f"{W} + {I}"))
-            except NotRational:
-                pass
-    chk.ob("O5.1", "W + I == 0 rejected", ok, zr[0] if zr else init, "")
+    _section(chk, "O5.1", iteration_control_rule, chk, "O5.1", drv)
 
     # ---- O5.2 time-period guards --------------------------------------------------------------------------------------------------
     chk.rule("O5.2", "time-based progress: elapsed == now - start; warm-up == elapsed < Wt; completed == now >= start + (Wt + T) (direction only); start written only by start(); "
@@ -603,454 +2129,50 @@ def run(chk):
              "a time-based task never stops / stops at once, flags the wrong side as warm-up, or returns to warm-up")
     tinit = _prop(drv, TB, "__init__")
     Wt, T = _param(tinit, 1), _param(tinit, 2)
-    tattrs = {}
-    for n in walk_body(tinit):
-        if isinstance(n, ast.Assign) and len(n.targets) == 1 and is_self_attr(n.targets[0]):
-            tattrs.setdefault(n.targets[0].attr, []).append(n.value)
-
-    props = {name: f for name, f in drv.methods(TB).items() if any((dotted(d) or "") == "property" for d in f.decorator_list)}
-
-    def texpand(e, depth=0):
-        class X(ast.NodeTransformer):
-            def visit_Attribute(self, n):
-                if is_self_attr(n) and depth < 5:
-                    if n.attr in props and n.attr.startswith("_"):
-                        r = _single_return(props[n.attr])
-                        if r is not None:
-                            return texpand(r, depth + 1)
-                    if n.attr in tattrs and n.attr not in ("_start", "_now"):
-                        vals = [v for v in tattrs[n.attr] if not (isinstance(v, ast.Constant) and v.value is None)]
-                        if len(vals) == 1:
-                            return texpand(vals[0], depth + 1)
-                return n
-
-        return X().visit(source.clone(e))
-
-    el = props.get("_elapsed")
-    elr = _single_return(el) if el else None
-    ok = elr is not None and rat_equal(elr, parse_expr("self._now - self._start"))
-    chk.ob("O5.2", "elapsed == now - start", ok, el if el else TB, f"`{u(elr) if elr is not None else None}`")
-    st = _single_return(_prop(drv, TB, "sample_type"))
-    ok = False
-    if isinstance(st, ast.IfExp):
-        c = comparison(texpand(st.test))
-        if c:
-            l, op, r = c
-            d = ast.BinOp(left=l, op=ast.Sub(), right=r)
-            want = parse_expr(f"self._now - self._start - {Wt}")
-            neg = parse_expr(f"{Wt} - (self._now - self._start)")
-            less = (op in ("<", "<=") and rat_equal(d, want)) or (op in (">", ">=") and rat_equal(d, neg))
-            more = (op in (">", ">=") and rat_equal(d, want)) or (op in ("<", "<=") and rat_equal(d, neg))
-            ok = (less and last_attr(st.body) == "Warmup" and last_attr(st.orelse) == "Normal") or (more and last_attr(st.body) == "Normal" and last_attr(st.orelse) == "Warmup")
-    chk.ob("O5.2", "warm-up == elapsed < warm-up period (direction)", ok, _prop(drv, TB, "sample_type"), f"`{u(st) if st is not None else None}`")
-    comp = _single_return(_prop(drv, TB, "completed"))
-    ok = False
-    if comp is not None:
-        c = comparison(texpand(comp))
-        if c:
-            l, op, r = c
-            d = ast.BinOp(left=l, op=ast.Sub(), right=r)
-            want = parse_expr(f"self._now - (self._start + {Wt} + {T})")
-            neg = parse_expr(f"(self._start + {Wt} + {T}) - self._now")
-            ok = (op in (">", ">=") and rat_equal(d, want)) or (op in ("<", "<=") and rat_equal(d, neg))
-    chk.ob("O5.2", "completed == now >= start + warm-up + period (direction)", ok, _prop(drv, TB, "completed"), f"`{u(comp) if comp is not None else None}` expands to `{u(texpand(comp)) if comp is not None else None}`")
-    pc = _single_return(_prop(drv, TB, "percent_completed"))
-    ok = pc is not None and rat_equal(texpand(pc), parse_expr(f"(self._now - self._start) / ({Wt} + {T})"))
-    chk.ob("O5.2", "progress == elapsed / (warm-up + period)", ok, _prop(drv, TB, "percent_completed"), f"`{u(pc) if pc is not None else None}`")
-    tw = {}
-    for m in drv.methods(TB).values():
-        for n in walk_body(m):
-            if isinstance(n, (ast.Assign, ast.AugAssign)):
-                for t in (n.targets if isinstance(n, ast.Assign) else [n.target]):
-                    if is_self_attr(t) and t.attr in ("_start", "_now"):
-                        tw.setdefault(t.attr, []).append((m.name, n))
-    sw = [(m, n) for m, n in tw.get("_start", []) if m != "__init__"]
-    ok = len(sw) == 1 and sw[0][0] == "start"
-    chk.ob("O5.2", "start written only by start()", ok, sw[0][1] if sw else TB, f"writers: {[m for m, _ in sw]}")
-    nw = [(m, n) for m, n in tw.get("_now", []) if m != "__init__"]
-    ok = bool(nw) and all(isinstance(n, ast.Assign) and isinstance(n.value, ast.Call) and dotted(n.value.func) == "time.perf_counter" for m, n in nw) and {m for m, _ in nw} == {"start", "next"}
-    chk.ob("O5.2", "now only from the monotonic clock in start()/next()", ok, nw[0][1] if nw else TB, f"writers: {[(m, short(n, 40)) for m, n in nw]}")
-    # every call of start() / next() advances `now`: warm-up / progress / completion are all read off it, also for a task whose end the parameter source decides
-    cond = [(m, n) for m, n in nw if guards(n)]
-    chk.ob("O5.2", "the clock is read on every call of start()/next() (unconditionally)", bool(nw) and not cond, cond[0][1] if cond else TB,
-           "" if not cond else f"{cond[0][0]}() reads the clock only under {[u(t) for t, _ in guards(cond[0][1])]}: otherwise `now` never advances and every sample stays warm-up",
-           key=f"{_D}:TimePeriodBased:now-unconditional")
-    # start() makes start == now (elapsed 0)
-    stf = _prop(drv, TB, "start")
-    ok = any(isinstance(n, ast.Assign) and is_self_attr(n.targets[0], "_start") and (is_self_attr(n.value, "_now") or dotted(getattr(n.value, "func", ast.Name(id=""))) == "time.perf_counter") for n in walk_body(stf))
-    chk.ob("O5.2", "start() sets start to the current clock", ok, stf, "")
+    _section(chk, "O5.2", time_control_rule, chk, "O5.2", drv)
 
     # ---- O5.3 generator discipline -----------------------------------------------------------------------------------------------------
     chk.rule("O5.3", "schedule generator: finite branch loops while not completed; each iteration computes next_scheduled = sched.next(previous), yields "
              "(next_scheduled, sample_type, progress, runner, params) and calls progress-control next() exactly once after the yield", 6,
              "requests issued after completion, progress advancing twice per request (half the iterations) or never (endless task), scheduled times not threaded")
-    gen = _prop(drv, SH, "__call__")
-    gg = cfg_of(gen)
-    loops = [n for n in walk_body(gen) if isinstance(n, ast.While)]
-    if len(loops) < 2:
-        raise AnchorMissing("the two generator loops in ScheduleHandle.__call__")
-    fin = [l for l in loops if not (isinstance(l.test, ast.Constant))]
-    inf = [l for l in loops if isinstance(l.test, ast.Constant)]
-    if not fin or not inf:
-        raise AnchorMissing("finite / infinite loop in ScheduleHandle.__call__")
-    ok = pat.is_(negate(fin[0].test), "self.task_progress_control.completed")
-    chk.ob("O5.3", "finite loop guard == not completed", ok, fin[0], f"`{u(fin[0].test)}`")
-    gs = guards(fin[0])
-    ok = holds(fin[0], "not self.task_progress_control.infinite")
-    chk.ob("O5.3", "finite loop iff the progress control is finite", ok, fin[0], f"guards {[(u(t), p) for t, p in gs]}")
-    threaded = {}
-    for name, l in (("finite", fin[0]), ("infinite", inf[0])):
-        ys = [n for n in ast.walk(l) if isinstance(n, ast.Yield)]
-        nx = [n for n in ast.walk(l) if isinstance(n, ast.Call) and u(n.func) == "self.task_progress_control.next"]
-        sn = [n for n in ast.walk(l) if isinstance(n, ast.Assign) and isinstance(n.value, ast.Call) and u(n.value.func) == "self.sched.next"]
-        lh = gg.node_of(l)
-        ok = len(ys) == 1 and len(nx) == 1 and len(sn) == 1
-        chk.ob("O5.3", f"{name}: one yield, one next(), one sched.next per iteration", ok, l, f"yields={len(ys)} next={len(nx)} sched.next={len(sn)}")
-        if not ok:
-            continue
-        y, n_, s_ = gg.node_of(ys[0]), gg.node_of(nx[0]), gg.node_of(sn[0])
-        ok = gg.dominated_by_nodes(n_, [y]) and not gg.path_exists(n_, y, avoid=[lh]) and not guards(nx[0], stop=l)
-        # every normal path from the yield to the loop head passes next()
-        ok = ok and lh.id not in gg.reachable([gg.nodes[t] for t, lab in gg.succ[y.id] if gg.normal_edge(y.id, t, lab)], avoid=[n_], edge_ok=gg.normal_edge)
-        chk.ob("O5.3", f"{name}: next() exactly once after the yield", ok, nx[0], "")
-        tgt = sn[0].targets[0].id if len(sn[0].targets) == 1 and isinstance(sn[0].targets[0], ast.Name) else None
-        if tgt is not None:
-            threaded.setdefault(tgt, []).append(l)
-        ok = tgt is not None and sn[0].value.args and u(sn[0].value.args[0]) == tgt and gg.dominated_by_nodes(y, [s_]) and not gg.path_exists(y, s_, avoid=[lh])
-        chk.ob("O5.3", f"{name}: scheduled time threaded (next = sched.next(previous)) before the yield", ok, sn[0], short(sn[0], 60))
-        tup = ys[0].value
-        ok = isinstance(tup, ast.Tuple) and len(tup.elts) == 5 and u(tup.elts[0]) == tgt and u(tup.elts[1]) == "self.task_progress_control.sample_type" and u(tup.elts[3]) == "self.runner"
-        if name == "finite":
-            ok = ok and u(tup.elts[2]) == "self.task_progress_control.percent_completed"
-        chk.ob("O5.3", f"{name}: yielded tuple (scheduled, sample type, progress, runner, params)", ok, ys[0], short(tup, 120))
-    # role: the variable threaded through sched.next() in a loop is written outside the threading loops exactly once, with 0, on every path to the loop (and one loop does not feed the other)
-    ok = bool(threaded)
-    inits = []
-    for tgt, ls in threaded.items():
-        outside = [n for n in walk_body(gen) if isinstance(n, (ast.Assign, ast.AugAssign, ast.AnnAssign, ast.NamedExpr)) and not any(l is a for l in ls for a in source.ancestors(n))
-                   and any(isinstance(x, ast.Name) and x.id == tgt for t in (n.targets if isinstance(n, ast.Assign) else [n.target]) for x in ast.walk(t))]
-        zero = [n for n in outside if isinstance(n, ast.Assign) and len(n.targets) == 1 and isinstance(n.targets[0], ast.Name) and source.is_const(n.value, 0)]
-        inits += zero
-        ok = ok and len(zero) == 1 and len(outside) == 1 and all(gg.dominated_by_nodes(gg.node_of(l), [gg.node_of(zero[0])]) for l in ls) \
-            and not any(a is not b and gg.path_exists(gg.node_of(a), gg.node_of(b)) for a in ls for b in ls)
-    chk.ob("O5.3", "first scheduled time derives from 0", ok, inits[0] if inits else gen, f"threaded through sched.next(): {sorted(threaded)}")
+    _section(chk, "O5.3", generator_rule, chk, "O5.3", drv)
 
     # ---- O5.4 pacing ----------------------------------------------------------------------------------------------------------------------------
     chk.rule("O5.4", "pacing: deterministic next == current + 1/theta; Poisson current + expovariate(theta); unthrottled 0; unit-aware theta == T / clients / weight "
              "(so consecutive requests are weight*C/T apart); ops/s target with another reported unit => weight 1 on every call; ramp-up == ramp * (i / total), "
              "progress timer started before the ramp-up wait, wait before the main loop, the request schedule anchored at the END of the wait", 9,
              "throttled tasks run at another rate than specified; clients start before/after their ramp-up slot; warm-up window shifted by the ramp-up delay")
-    DS = sch.cls("DeterministicScheduler")
-    di = _prop(sch, DS, "__init__")
-    dn = _prop(sch, DS, "next")
-    thp = _param(di, 2)
-    dattrs = {n.targets[0].attr: n.value for n in walk_body(di) if isinstance(n, ast.Assign) and is_self_attr(n.targets[0])}
-    r = _single_return(dn)
-
-    def dexp(e):
-        class X(ast.NodeTransformer):
-            def visit_Attribute(self, n):
-                if is_self_attr(n) and n.attr in dattrs:
-                    return source.clone(dattrs[n.attr])
-                return n
-
-        return X().visit(source.clone(e))
-
-    cur = _param(dn, 1)
-    ok = r is not None and rat_equal(dexp(r), parse_expr(f"{cur} + 1 / {thp}"))
-    chk.ob("O5.4", "deterministic: next == current + 1/theta", ok, dn, f"`{u(dexp(r)) if r is not None else None}`")
-    PS = sch.cls("PoissonScheduler")
-    pi, pn = _prop(sch, PS, "__init__"), _prop(sch, PS, "next")
-    pattrs = {n.targets[0].attr: n.value for n in walk_body(pi) if isinstance(n, ast.Assign) and is_self_attr(n.targets[0])}
-    r = _single_return(pn)
-    ok = False
-    if isinstance(r, ast.BinOp) and isinstance(r.op, ast.Add):
-        sides = [r.left, r.right]
-        cur = _param(pn, 1)
-        ex = [s for s in sides if isinstance(s, ast.Call) and dotted(s.func) == "random.expovariate"]
-        ok = len(ex) == 1 and any(u(s) == cur for s in sides) and len(ex[0].args) == 1 and is_self_attr(ex[0].args[0]) and u(pattrs.get(ex[0].args[0].attr)) == _param(pi, 2)
-    chk.ob("O5.4", "poisson: next == current + expovariate(theta)", ok, pn, f"`{u(r) if r is not None else None}`")
-    UT = sch.cls("Unthrottled")
-    r = _single_return(_prop(sch, UT, "next"))
-    chk.ob("O5.4", "unthrottled: next == 0", r is not None and source.is_const(r, 0), _prop(sch, UT, "next"), "")
-    UA = sch.cls("UnitAwareScheduler")
-    ar = _prop(sch, UA, "after_request")
-    adefs = {k: v for k, v in local_defs(ar).items() if k not in params_of(ar)}  # a re-assigned parameter is not a single-definition local
-    # role: theta is what the delegate's constructor receives as its target-throughput parameter in `self.scheduler_class(task, theta)`; `tt` is the statement computing it
-    # (the defining assignment when theta is a local, else the statement holding the constructor call)
-    scc = [c for c in walk_body(ar) if isinstance(c, ast.Call) and is_self_attr(c.func, "scheduler_class")]
-    theta = bind_args(scc[0], di).get(thp) if len(scc) == 1 else None
-    tt = []
-    if isinstance(theta, ast.Name) and theta.id in adefs:
-        tt = [n for n in walk_body(ar) if isinstance(n, ast.Assign) and n.value is adefs[theta.id]]
-    elif theta is not None and not isinstance(theta, ast.Name):
-        tt = [source.enclosing_stmt(scc[0])]
-    ok = False
-    detail = "target throughput assignment not found"
-    if tt:
-        e = tt[0].value if isinstance(theta, ast.Name) else theta  # the direct definition only: deeper locals could be stale reads of the weight
-        ok = rat_equal(e, parse_expr("self.task.target_throughput.value / self.task.clients / self.current_weight"))
-        detail = f"theta = {u(e)}"
-        # composition with the deterministic wait
-        comp = ratfun(parse_expr("1 / THETA"), subst=lambda n: e if isinstance(n, ast.Name) and n.id == "THETA" else None)
-        want = ratfun(parse_expr("self.current_weight * self.task.clients / self.task.target_throughput.value"))
-        ok = ok and comp == want
-    chk.ob("O5.4", "unit-aware: theta == T / clients / weight (gap == weight*C/T)", ok, tt[0] if tt else ar, detail)
-    cw = [n for n in walk_body(ar) if isinstance(n, ast.Assign) and any(is_self_attr(t, "current_weight") for t in n.targets)]
-    wparam = _param(ar, 2)
-    ok = len(cw) == 1 and u(cw[0].value) == wparam and bool(tt) and cfg_of(ar).dominated_by_nodes(cfg_of(ar).node_of(tt[0]), [cfg_of(ar).node_of(cw[0])])
-    chk.ob("O5.4", "current weight updated from the reported weight before theta is computed", ok, cw[0] if cw else ar, "")
-    w1 = [n for n in walk_body(ar) if isinstance(n, ast.Assign) and isinstance(n.targets[0], ast.Name) and n.targets[0].id == wparam and source.is_const(n.value, 1)]
-    ok = False
-    detail = "no `weight = 1` normalisation"
-    if w1:
-        gs = guards(w1[0])
-        # guard facts of the normalisation beyond those of the update branch itself (the branch that stores current_weight): exactly {reported unit != target unit, target unit == 'ops/s'},
-        # whatever the nesting / arm polarity / orientation / local names; any further condition (e.g. first_request) means it is not applied on every call
-        outer = {u(f_) for c_ in cw for f_ in pat.fact_nodes(c_)}
-        inner = [source.inline_node(f_, adefs) for f_ in pat.fact_nodes(w1[0]) if u(f_) not in outer]
-        UNIT = "self.task.target_throughput.unit"
-        uparam = params_of(ar)[3] if len(params_of(ar)) > 3 else None
-        is_opss = [f_ for f_ in inner if pat.is_(f_, f"{UNIT} == 'ops/s'")]
-        mism = [f_ for f_ in inner if f_ not in is_opss and (c_ := oriented(f_, lambda n: u(n) == UNIT)) is not None and c_[1] == "!=" and uparam is not None
-                and any(isinstance(x, ast.Name) and x.id == uparam for x in ast.walk(c_[2])) and "/s" in u(c_[2])]
-        ok = len(cw) == 1 and len(is_opss) == 1 and len(mism) == 1 and len(inner) == 2
-        detail = f"weight = 1 under {[(u(t), p) for t, p in gs]}; beyond the update branch: {[u(f_) for f_ in inner]}"
-    chk.ob("O5.4", "ops/s target with another unit: weight normalised to 1 on every call (not only the first)", ok, w1[0] if w1 else ar, detail)
-    # scheduler re-created with the new theta on every path through the update branch
-    mk = [n for n in walk_body(ar) if isinstance(n, ast.Assign) and any(is_self_attr(t, "scheduler") for t in n.targets)]
-    # rebuilt exactly when the weight is stored and theta recomputed (same guard facts), i.e. under the update condition weight > 0 and (first request or weight changed), from that theta
-    upd = [u(f_) for f_ in pat.fact_nodes(mk[0])] if mk else []
-    ok = len(mk) == 1 and bool(tt) and len(cw) == 1 and sorted(upd) == sorted(u(f_) for f_ in pat.fact_nodes(cw[0])) == sorted(u(f_) for f_ in pat.fact_nodes(tt[0])) \
-        and len(upd) == 2 and any(pat.is_(f_, f"{wparam} > 0") for f_ in pat.fact_nodes(mk[0])) \
-        and any(pat.is_(f_, f"self.first_request or self.current_weight != {wparam}") for f_ in pat.fact_nodes(mk[0])) \
-        and isinstance(mk[0].value, ast.Call) and mk[0].value is scc[0]
-    chk.ob("O5.4", "delegate scheduler rebuilt with the new theta", ok, mk[0] if mk else ar, "")
-    sf = sch.func("scheduler_for")
-    sfp = _param(sf, 0)
-    ok = any(isinstance(n, ast.Return) and isinstance(n.value, ast.Call) and last_attr(n.value.func) == "Unthrottled" and any(pat.is_(f_, f"run_unthrottled({sfp})") for f_ in pat.fact_nodes(n)) for n in walk_body(sf))
-    chk.ob("O5.4", "unthrottled scheduler iff run_unthrottled(task)", ok, sf, "")
-    ru = sch.func("run_unthrottled")
-    r = _single_return(ru)
-    from sa.cfg import conjuncts
-
-    ok = r is not None and isinstance(r, ast.BoolOp) and isinstance(r.op, ast.And) and any(pat.is_(v, f"{_param(ru, 0)}.target_throughput is None") for v in conjuncts(r))
-    chk.ob("O5.4", "unthrottled requires target throughput is None", ok, ru, "")
-    # ramp-up
-    rw = _prop(drv, SH, "ramp_up_wait_time")
-    rets = [n for n in walk_body(rw) if isinstance(n, ast.Return)]
-    rdefs = local_defs(rw)
-    ok = False
-    for rr in rets:
-        if not source.is_const(rr.value, 0):
-            ok = rat_equal(source.inline_node(rr.value, rdefs), parse_expr("self.task_allocation.task.ramp_up_time_period * self.task_allocation.global_client_index / self.task_allocation.total_clients"))
-    chk.ob("O5.4", "ramp-up wait == ramp * (i / total)", ok, rw, f"{[u(x.value) for x in rets]}")
+    _section(chk, "O5.4", simple_schedulers_rule, chk, "O5.4", sch)
+    _section(chk, "O5.4", unit_aware_rule, chk, "O5.4", sch)
+    _section(chk, "O5.4", unthrottled_choice_rule, chk, "O5.4", sch)
+    _section(chk, "O5.4", ramp_up_formula_rule, chk, "O5.4", drv)
     from rules.C02 import allocation_totals
 
     allocation_totals(chk, "O5.4", drv)
-    ex, ge, edefs, sleeps, starts, loops_, sl, stt, lp = timer_before_rampup_rule(chk, "O5.4", drv, "the warm-up / time period would start after the ramp-up delay: client i runs ramp*i/total too long")
-    ok = not ge.path_exists(lp, sl) and len(starts) == 1
-    chk.ob("O5.4", "ramp-up wait before the main loop", ok, sleeps[0], "")
-    gs = [source.inline_node(f_, edefs) for f_ in pat.fact_nodes(sleeps[0])]
-    ok = len(gs) == 1 and pat.is_(gs[0], "self.schedule_handle.ramp_up_wait_time", "self.schedule_handle.ramp_up_wait_time > 0", "self.schedule_handle.ramp_up_wait_time != 0")
-    chk.ob("O5.4", "ramp-up wait guarded only by a non-zero wait time", ok, sleeps[0], "")
+    _section(chk, "O5.4", timer_before_rampup_rule, chk, "O5.4", drv, "the warm-up / time period would start after the ramp-up delay: client i runs ramp*i/total too long")
+    _section(chk, "O5.4", ramp_up_placement_rule, chk, "O5.4", drv)
 
     # ---- O5.6 target throughput parsing ------------------------------------------------------------------------------------------------------------------
     chk.rule("O5.6", "target throughput of a task: interval k => 1/k ops/s; numeric throughput v => v ops/s; string 'v unit/s' => (v, unit/s); both given, non-numeric interval, malformed string "
              "or another type => rejected; neither => unthrottled (None)", 8,
              "a target interval is taken as a rate (or vice versa): the task is paced at the inverse of what the track says")
-    TKc = repo.module("esrally/track/track.py").cls("Task")
-    repo_trk = repo.module("esrally/track/track.py")
-    chk.use(repo_trk)
-    tt = repo_trk.methods(TKc).get("target_throughput")
-    if tt is None:
-        raise AnchorMissing("Task.target_throughput")
-    body = [s_ for s_ in tt.body if not isinstance(s_, ast.FunctionDef)]
-    # roles instead of names: an expression is "the interval" / "the throughput" when, with locals substituted, it reads the key target-interval / target-throughput
-    tdefs = local_defs(tt)
-    localfns = {f_.name: f_ for f_ in tt.body if isinstance(f_, ast.FunctionDef)}
-
-    def role_of(e):
-        t = source.inline(e, tdefs)
-        if "'target-interval'" in t and "'target-throughput'" not in t:
-            return "iv"
-        if "'target-throughput'" in t and "'target-interval'" not in t:
-            return "tv"
-        return None
-
-    CASES = [  # (label, interval, throughput) abstract values: None | 'num' | 'nonnum' | 'str-ok' | 'str-bad' | 'other'
-        ("neither given", None, None, ("none", None, None)),
-        ("both given", "num", "num", ("raise", None, None)),
-        ("interval numeric", "num", None, ("value", "1 / float(IV)", "'ops/s'")),
-        ("interval not numeric", "nonnum", None, ("raise", None, None)),
-        ("throughput numeric", None, "num", ("value", "float(TV)", "'ops/s'")),
-        ("throughput well-formed string", None, "str-ok", ("value", "float(MATCH.group('value'))", "MATCH.group('unit')")),
-        ("throughput malformed string", None, "str-bad", ("raise", None, None)),
-        ("throughput of another type", None, "other", ("raise", None, None)),
-    ]
-    IVX, TVX = "self.params.get('target-interval')", "self.params.get('target-throughput')"
-
-    def canon(e):
-        """bound value with locals substituted, roles abstracted: IV / TV / MATCH."""
-        if e is None:
-            return None
-        t = source.inline(e, tdefs)
-        import re as _re
-        t = _re.sub(r"re\.(?:match|fullmatch)\([^()]*(?:\([^()]*\)[^()]*)*\)", "MATCH", t)
-        return t.replace(IVX, "IV").replace(TVX, "TV")
-
-    for label, iv, tv, want in CASES:
-        val = {"iv": iv, "tv": tv}
-
-        def atom(n, env, val=val):
-            if isinstance(n, ast.Call) and dotted(n.func) in ("re.match", "re.fullmatch", "re.search") and len(n.args) == 2 and role_of(n.args[1]) == "tv":
-                return val["tv"] == "str-ok"
-            if isinstance(n, ast.Call) and isinstance(n.func, ast.Name) and n.func.id in localfns and len(n.args) == 1 and role_of(n.args[0]):
-                return val[role_of(n.args[0])] == "num"  # the local predicate `numeric`
-            if isinstance(n, ast.Call) and dotted(n.func) == "isinstance" and len(n.args) == 2 and role_of(n.args[0]) and u(n.args[1]) == "str":
-                return val[role_of(n.args[0])] in ("str-ok", "str-bad")
-            if isinstance(n, ast.Compare) and len(n.ops) == 1 and isinstance(n.ops[0], (ast.Is, ast.IsNot)) and _is_none(n.comparators[0]) and role_of(n.left):
-                isnone = val[role_of(n.left)] is None
-                return isnone if isinstance(n.ops[0], ast.Is) else not isnone
-            r = role_of(n)
-            if r and isinstance(n, (ast.Name, ast.Call)):
-                return val[r] is not None  # truthiness of the raw parameter
-            if isinstance(n, ast.Constant):
-                return bool(n.value)
-            if isinstance(n, (ast.BinOp, ast.Call)) and (("IV" in (canon(n) or "")) or ("TV" in (canon(n) or "")) or "MATCH" in (canon(n) or "")):
-                return True  # the computed value (non-zero for the representative inputs)
-            return None
-
-        try:
-            out = decide(body, atom, {})
-        except (Unsupported, UnknownAtom) as e:
-            chk.unknown("O5.6", f"target_throughput is not a decision over (interval kind, throughput kind): {e}", tt)
-            break
-        if want[0] == "raise":
-            ok = out.kind == "raise"
-            got = out.text()
-        elif want[0] == "none":
-            ok = out.kind == "return" and isinstance(out.value, ast.Constant) and out.value.value is None
-            got = out.text()
-        else:
-            a_ = [canon(x) for x in out.value.args] if out.kind == "return" and isinstance(out.value, ast.Call) and last_attr(out.value.func) == "Throughput" else []
-            b_ = getattr(out, "bindings", {})
-            a_ = [canon(b_[x.id]) if isinstance(x, ast.Name) and b_.get(x.id) is not None else canon(x) for x in out.value.args] if a_ else []
-            ok = a_ == [want[1], want[2]]
-            got = f"{out.text()} with (value, unit) = {a_}"
-        chk.ob("O5.6", f"{label}", ok, tt, f"{got}; expected {want}", key=f"esrally/track/track.py:Task.target_throughput:{label}")
-    tpat = [n for n in TKc.body if isinstance(n, ast.Assign) and u(n.targets[0]) == "THROUGHPUT_PATTERN"]
-    ok = bool(tpat) and isinstance(tpat[0].value, ast.Call) and bool(tpat[0].value.args) and isinstance(tpat[0].value.args[0], ast.Constant) and "(?P<value>" in tpat[0].value.args[0].value and "(?P<unit>" in tpat[0].value.args[0].value and "/s" in tpat[0].value.args[0].value
-    chk.ob("O5.6", "string form parsed with named groups value / unit (unit ends in /s)", ok, tpat[0] if tpat else TKc, "")
-    throughput_pattern_rule(chk, "O5.6", repo_trk)
-    reads = {source.inline(v_, {}) for v_ in tdefs.values()}
-    ok = IVX in reads and TVX in reads
-    chk.ob("O5.6", "read from the keys target-throughput / target-interval", ok, tt, "")
+    _section(chk, "O5.6", target_throughput_rule, chk, "O5.6", repo)
 
     # ---- O5.5 loop-control choice --------------------------------------------------------------------------------------------------------------------
     chk.rule("O5.5", "loop-control choice as a decision table: any time-period field => time-based; else any iteration field => iteration-based; else runner completion => time-based; "
              "else finite parameter source => time-based; the chosen control receives (warm-up, measurement) from the task fields of the same kind", 8,
              "explicit iterations ignored (task never stops after W+I requests) or explicit time periods ignored")
-    rq = drv.func("requires_time_period_schedule")
-    tpn, rn, pn_ = _param(rq, 0), _param(rq, 1), _param(rq, 2)
-
-    FIELD = {(tpn, "warmup_time_period"): "wt", (tpn, "time_period"): "t", (tpn, "warmup_iterations"): "wi", (tpn, "iterations"): "i", (rn, "completed"): "rc"}
-
-    def atom(n, env):
-        """role atoms: `<param>.<field> is [not] None` in either orientation; `<params>.infinite`."""
-        if isinstance(n, ast.Compare) and len(n.ops) == 1 and isinstance(n.ops[0], (ast.Is, ast.IsNot)):
-            l, r = n.left, n.comparators[0]
-            x = r if _is_none(l) else l if _is_none(r) else None
-            if isinstance(x, ast.Attribute) and isinstance(x.value, ast.Name) and (x.value.id, x.attr) in FIELD:
-                given = env[FIELD[(x.value.id, x.attr)]]
-                return given if isinstance(n.ops[0], ast.IsNot) else not given
-            return None
-        if isinstance(n, ast.Attribute) and isinstance(n.value, ast.Name) and n.value.id == pn_ and n.attr == "infinite":
-            return env["inf"]
-        return None
-
-    n_rows = 0
-    try:
-        for vals in itertools.product([False, True], repeat=6):
-            env = dict(zip(["wt", "t", "wi", "i", "rc", "inf"], vals))
-            out = decide(rq.body, atom, env)
-            if out.kind != "return":
-                chk.ob("O5.5", f"row {env}", False, rq, f"no decision: {out.text()}")
-                continue
-            from sa.sym import bool_eval
-
-            got = bool_eval(out.value, lambda n: atom(n, env))
-            if env["wt"] or env["t"]:
-                want = True
-            elif env["wi"] or env["i"]:
-                want = False
-            elif env["rc"]:
-                want = True
-            else:
-                want = not env["inf"]
-            n_rows += 1
-            if got != want:
-                chk.ob("O5.5", f"choice for {', '.join(k for k, v in env.items() if v) or 'nothing set'}", False, rq,
-                       f"chooses {'time-based' if got else 'iteration-based'}, documented: {'time-based' if want else 'iteration-based'}",
-                       key=f"{_D}:requires_time_period_schedule:{sorted(k for k, v in env.items() if v)}")
-        chk.ob("O5.5", "decision table rows evaluated", n_rows == 64, rq, f"{n_rows} of 64 abstract cases agree with the documented precedence")
-    except (Unsupported, UnknownAtom) as e:
-        chk.unknown("O5.5", f"requires_time_period_schedule is not a decision function over the six role atoms: {e}", rq)
-    sfn = drv.func("schedule_for")
-    sdefs = {}
-    for n in walk_body(sfn):
-        if isinstance(n, ast.Assign) and len(n.targets) == 1 and isinstance(n.targets[0], ast.Name):
-            sdefs.setdefault(n.targets[0].id, []).append(n.value)
-    ibc = [n for n in walk_body(sfn) if isinstance(n, ast.Call) and last_attr(n.func) == "IterationBased"]
-    tbc = [n for n in walk_body(sfn) if isinstance(n, ast.Call) and last_attr(n.func) == "TimePeriodBased"]
-    if not ibc or not tbc:
-        raise AnchorMissing("IterationBased(...) / TimePeriodBased(...) construction in schedule_for")
-
-    ta = _param(sfn, 0)
-
-    def is_task(x, depth=0):
-        """role: the task of the allocation — `<allocation parameter>.task` itself or a local all of whose definitions are that."""
-        if isinstance(x, ast.Attribute):
-            return x.attr == "task" and isinstance(x.value, ast.Name) and x.value.id == ta
-        return isinstance(x, ast.Name) and x.id != ta and depth < 4 and bool(sdefs.get(x.id)) and all(is_task(v, depth + 1) for v in sdefs[x.id])
-
-    def sources(e):
-        """attribute names of the task an expression can carry (through the local's definitions)."""
-        out = set()
-        todo = [e]
-        seen = set()
-        while todo:
-            x = todo.pop()
-            for n in ast.walk(x):
-                if isinstance(n, ast.Attribute) and is_task(n.value):
-                    out.add(n.attr)
-                if isinstance(n, ast.Name) and n.id in sdefs and n.id not in seen:
-                    seen.add(n.id)
-                    todo.extend(sdefs[n.id])
-        return out
-
-    b = bind_args(ibc[0], init)
-    chk.ob("O5.5", "IterationBased(warm-up := task.warmup_iterations)", sources(b.get(W)) == {"warmup_iterations"} if b.get(W) is not None else False, ibc[0], f"{W} <- {sorted(sources(b[W])) if b.get(W) is not None else None}")
-    chk.ob("O5.5", "IterationBased(iterations := task.iterations)", sources(b.get(I)) == {"iterations"} if b.get(I) is not None else False, ibc[0], f"{I} <- {sorted(sources(b[I])) if b.get(I) is not None else None}")
-    b = bind_args(tbc[0], tinit)
-    chk.ob("O5.5", "TimePeriodBased(warm-up := task.warmup_time_period)", sources(b.get(Wt)) == {"warmup_time_period"} if b.get(Wt) is not None else False, tbc[0], "")
-    chk.ob("O5.5", "TimePeriodBased(period := task.time_period)", sources(b.get(T)) == {"time_period"} if b.get(T) is not None else False, tbc[0], "")
-    ok = any(pat.is_(f_, "requires_time_period_schedule(E_a, E_b, E_c)") for f_ in pat.fact_nodes(tbc[0])) and any(pat.is_(f_, "not requires_time_period_schedule(E_a, E_b, E_c)") for f_ in pat.fact_nodes(ibc[0]))
-    chk.ob("O5.5", "time-based control iff requires_time_period_schedule", ok, tbc[0], "")
-    # the chosen control reaches the schedule handle
-    shc = [n for n in walk_body(sfn) if isinstance(n, ast.Call) and last_attr(n.func) == "ScheduleHandle"]
-    lc = bind_args(shc[0], _prop(drv, SH, "__init__")).get("task_progress_control") if shc else None
-    ok = isinstance(lc, ast.Name) and lc.id in sdefs and all(isinstance(v, ast.Call) and last_attr(v.func) in ("IterationBased", "TimePeriodBased") for v in sdefs[lc.id])
-    chk.ob("O5.5", "the chosen loop control is handed to the schedule handle", ok, shc[0] if shc else sfn, "")
+    _section(chk, "O5.5", loop_control_choice_rule, chk, "O5.5", drv)
+    _section(chk, "O5.5", loop_control_flow_rule, chk, "O5.5", drv, (W, I), (Wt, T))
     # params partitioned with the task-local client index
     partition_call_rule(chk, "O5.5", drv)
     from rules.C01 import complete_read_exemption_rule
 
     complete_read_exemption_rule(chk, "O5.5", drv)
-    parallel_defaults_rule(chk, "O5.5", repo)
+    _section(chk, "O5.5", parallel_defaults_rule, chk, "O5.5", repo)
     # ---- obligations added after the defect hunt (kept last: an anchor they cannot find must not hide the verdicts above) ----------------------------------
-    schedule_anchor_rule(chk, "O5.4", ex, loops_[0])  # F40
-    iteration_time_mix_rule(chk, "O5.5", repo)  # F48
+    _section(chk, "O5.4", schedule_anchor_rule, chk, "O5.4", drv)  # F40
+    _section(chk, "O5.5", iteration_time_mix_rule, chk, "O5.5", repo)  # F48
     chk.rule("O5.7", "the progress reported for a running step is monotone by construction: the per-step table of most recent samples is keyed by (client, task), and the mean "
              "over it is not taken over the clients that have reported so far only (or the reported value is a per-step high-water mark)", 4,
              "reported progress decreases: a client that runs two tasks of a parallel element in turn (100% -> 25%), or a slower client whose first samples arrive later (60% -> 40%)")
@@ -1058,6 +2180,78 @@ def run(chk):
 
 
 from sa.selftest import V  # noqa: E402
+
+_T, _L = "esrally/track/track.py", "esrally/track/loader.py"
+# the schedule generator as it is on the pinned tree (two copy-pasted loops) and the merged single-loop form of benign/C05-b2
+_GEN_OLD = """        next_scheduled = 0
+        if self.task_progress_control.infinite:
+            param_source_knows_progress = hasattr(self.params, "percent_completed")
+            while True:
+                try:
+                    next_scheduled = self.sched.next(next_scheduled)
+                    # does not contribute at all to completion. Hence, we cannot define completion.
+                    percent_completed = self.params.percent_completed if param_source_knows_progress else None
+                    # current_params = await self.loop.run_in_executor(self.io_pool_exc, self.params.params)
+                    yield (
+                        next_scheduled,
+                        self.task_progress_control.sample_type,
+                        percent_completed,
+                        self.runner,
+                        self.params_with_operation_type(),
+                    )
+                    self.task_progress_control.next()
+                except StopIteration:
+                    return
+        else:
+            while not self.task_progress_control.completed:
+                try:
+                    next_scheduled = self.sched.next(next_scheduled)
+                    # current_params = await self.loop.run_in_executor(self.io_pool_exc, self.params.params)
+                    yield (
+                        next_scheduled,
+                        self.task_progress_control.sample_type,
+                        self.task_progress_control.percent_completed,
+                        self.runner,
+                        self.params_with_operation_type(),
+                    )
+                    self.task_progress_control.next()
+                except StopIteration:
+                    return
+"""
+_GEN_MERGED = """        progress_control = self.task_progress_control
+        if progress_control.infinite:
+            param_source_knows_progress = hasattr(self.params, "percent_completed")
+
+            def completed():
+                return False
+
+            def percent_completed():
+                return self.params.percent_completed if param_source_knows_progress else None
+
+        else:
+
+            def completed():
+                return progress_control.completed
+
+            def percent_completed():
+                return progress_control.percent_completed
+
+        next_scheduled = 0
+        try:
+            while not completed():
+                next_scheduled = self.sched.next(next_scheduled)
+                progress = percent_completed()
+                yield (
+                    next_scheduled,
+                    progress_control.sample_type,
+                    progress,
+                    self.runner,
+                    self.params_with_operation_type(),
+                )
+                progress_control.next()
+        except StopIteration:
+            return
+"""
 
 VARIANTS = [
     V("completed it > total", "break", _D, "        return self._it >= self._total_iterations", "        return self._it > self._total_iterations", "O5.1"),
@@ -1108,4 +2302,86 @@ VARIANTS = [
     V("progress table: key through a local (same known finding, same key)", "keep", _D, "                self.most_recent_sample_per_client[s.client_id] = s", "                reporter = s.client_id\n                self.most_recent_sample_per_client[reporter] = s"),
     V("decision function as nested ifs", "keep", _D, "    # user has explicitly requested iterations\n    if task.warmup_iterations is not None or task.iterations is not None:\n        return False",
       "    # user has explicitly requested iterations\n    if task.warmup_iterations is not None:\n        return False\n    if task.iterations is not None:\n        return False"),
+    # ---- hardening round 2: refactored shapes the value-based rules accept ("keep"), and the same shapes with the defect inside ("break") ------------------------------------
+    # O5.6: modernised target_throughput (conditional-expression return, guard clause + walrus + compiled-pattern API, static helper instead of the closure)
+    V("target_throughput: conditional-expression return", "keep", _T, "        if value:\n            return Throughput(value, unit)\n        else:\n            return None\n", "        return Throughput(value, unit) if value else None\n"),
+    V("target_throughput: guard clause, walrus, compiled-pattern API", "keep", _T,
+      "                matches = re.match(Task.THROUGHPUT_PATTERN, target_throughput)\n                if matches:\n                    value = float(matches.group(\"value\"))\n                    unit = matches.group(\"unit\")\n                else:\n                    raise exceptions.InvalidSyntax(f\"Task [{self}] specifies invalid target throughput [{target_throughput}].\")\n",
+      "                if not (matches := Task.THROUGHPUT_PATTERN.match(target_throughput)):\n                    raise exceptions.InvalidSyntax(f\"Task [{self}] specifies invalid target throughput [{target_throughput}].\")\n                value = float(matches[\"value\"])\n                unit = matches[\"unit\"]\n"),
+    [V("target_throughput: conditional-expression return, interval taken as a rate", "break", _T, "        if value:\n            return Throughput(value, unit)\n        else:\n            return None\n", "        return Throughput(value, unit) if value else None\n", "O5.6"),
+     V("", "break", _T, "            value = 1 / float(target_interval)", "            value = float(target_interval)")],
+    V("target_throughput: walrus form reads the unit group as the value", "break", _T,
+      "                matches = re.match(Task.THROUGHPUT_PATTERN, target_throughput)\n                if matches:\n                    value = float(matches.group(\"value\"))\n                    unit = matches.group(\"unit\")\n                else:\n                    raise exceptions.InvalidSyntax(f\"Task [{self}] specifies invalid target throughput [{target_throughput}].\")\n",
+      "                if not (matches := Task.THROUGHPUT_PATTERN.match(target_throughput)):\n                    raise exceptions.InvalidSyntax(f\"Task [{self}] specifies invalid target throughput [{target_throughput}].\")\n                value = float(matches[\"value\"])\n                unit = \"ops/s\"\n", "O5.6"),
+    V("throughput pattern constant renamed", "keep", _T, "THROUGHPUT_PATTERN", "TARGET_RATE_RE", count=2),
+    [V("throughput pattern constant renamed, fraction outside the value group", "break", _T, "THROUGHPUT_PATTERN", "TARGET_RATE_RE", "O5.6", count=2),
+     V("", "break", _T, "re.compile(r\"(?P<value>(\\d*\\.)?\\d+)\\s(?P<unit>\\w+/s)\")", "re.compile(r\"(?:\\d*\\.)?(?P<value>\\d+)\\s(?P<unit>\\w+/s)\")")],
+    # O5.4: parsed throughput read once into a local / through a cached property, rate local renamed
+    [V("unit-aware: parsed throughput read once into a local, rate local renamed", "keep", _S, "            expected_unit = self.task.target_throughput.unit\n", "            parsed = self.task.target_throughput\n            expected_unit = parsed.unit\n"),
+     V("", "keep", _S, "            target_throughput = self.task.target_throughput.value / self.task.clients / self.current_weight\n            self.scheduler = self.scheduler_class(self.task, target_throughput)",
+       "            requests_per_second = parsed.value / self.task.clients / self.current_weight\n            self.scheduler = self.scheduler_class(self.task, requests_per_second)")],
+    [V("unit-aware: local throughput, rate computed before the weight is stored (stale weight)", "break", _S, "            expected_unit = self.task.target_throughput.unit\n", "            parsed = self.task.target_throughput\n            expected_unit = parsed.unit\n            previous_weight = self.current_weight or weight\n", "O5.4"),
+     V("", "break", _S, "            target_throughput = self.task.target_throughput.value / self.task.clients / self.current_weight\n            self.scheduler = self.scheduler_class(self.task, target_throughput)",
+       "            requests_per_second = parsed.value / self.task.clients / previous_weight\n            self.scheduler = self.scheduler_class(self.task, requests_per_second)")],
+    V("unit-aware: delegate rebuilt only for the first request", "break", _S, "        if weight > 0 and (self.first_request or self.current_weight != weight):", "        if weight > 0 and self.first_request:", "O5.4"),
+    V("unit-aware: failed request (weight 0) reaches the rate computation", "break", _S, "        if weight > 0 and (self.first_request or self.current_weight != weight):", "        if self.first_request or self.current_weight != weight:", "O5.4"),
+    V("deterministic: wait computed in next()", "keep", _S, "        self.wait_time = 1 / target_throughput\n\n    def next(self, current):\n        return current + self.wait_time", "        self.rate = target_throughput\n\n    def next(self, current):\n        return current + 1.0 / self.rate"),
+    # O5.3: the merged single-loop generator (local closures chosen per mode, control read into a local, try around the loop)
+    V("generator: one loop, per-mode closures, control in a local", "keep", _D, _GEN_OLD, _GEN_MERGED),
+    V("generator: merged loop, next() before the yield", "break", _D, _GEN_OLD, _GEN_MERGED.replace("                )\n                progress_control.next()\n", "                )\n").replace("                progress = percent_completed()\n", "                progress = percent_completed()\n                progress_control.next()\n"), "O5.3"),
+    V("generator: merged loop, completion test dropped for finite controls", "break", _D, _GEN_OLD, _GEN_MERGED.replace("                return progress_control.completed\n", "                return False\n"), "O5.3"),
+    V("generator: merged loop, infinite control asked for completion", "break", _D, _GEN_OLD, _GEN_MERGED.replace("            def completed():\n                return False\n", "            def completed():\n                return progress_control.completed\n"), "O5.3"),
+    V("generator: merged loop, scheduled time restarts from 0 every iteration", "break", _D, _GEN_OLD, _GEN_MERGED.replace("                next_scheduled = self.sched.next(next_scheduled)\n", "                next_scheduled = self.sched.next(0)\n"), "O5.3"),
+    V("generator: merged loop, runner and params swapped in the tuple", "break", _D, _GEN_OLD, _GEN_MERGED.replace("                    self.runner,\n                    self.params_with_operation_type(),\n", "                    self.params_with_operation_type(),\n                    self.runner,\n"), "O5.3"),
+    # O5.5: loop control built by an extracted helper
+    [V("loop control built by an extracted module-level helper", "keep", _D, "        loop_control = IterationBased(warmup_iterations, iterations)\n", "        loop_control = _iteration_control(warmup_iterations, iterations)\n"),
+     V("", "keep", _D, "def requires_time_period_schedule(task, task_runner, params):\n", "def _iteration_control(warmup, measured):\n    return IterationBased(warmup, measured)\n\n\ndef requires_time_period_schedule(task, task_runner, params):\n")],
+    [V("extracted helper swaps warm-up and measured iterations", "break", _D, "        loop_control = IterationBased(warmup_iterations, iterations)\n", "        loop_control = _iteration_control(warmup_iterations, iterations)\n", "O5.5"),
+     V("", "break", _D, "def requires_time_period_schedule(task, task_runner, params):\n", "def _iteration_control(warmup, measured):\n    return IterationBased(measured, warmup)\n\n\ndef requires_time_period_schedule(task, task_runner, params):\n")],
+    [V("decision function delegates to a helper predicate", "keep", _D, "    if task.warmup_time_period is not None or task.time_period is not None:\n        return True\n", "    if _has_time_period(task):\n        return True\n"),
+     V("", "keep", _D, "def requires_time_period_schedule(task, task_runner, params):\n", "def _has_time_period(task):\n    return not (task.warmup_time_period is None and task.time_period is None)\n\n\ndef requires_time_period_schedule(task, task_runner, params):\n")],
+    [V("helper predicate forgets the warm-up period", "break", _D, "    if task.warmup_time_period is not None or task.time_period is not None:\n        return True\n", "    if _has_time_period(task):\n        return True\n", "O5.5"),
+     V("", "break", _D, "def requires_time_period_schedule(task, task_runner, params):\n", "def _has_time_period(task):\n    return task.time_period is not None\n\n\ndef requires_time_period_schedule(task, task_runner, params):\n")],
+    V("runner completion tested by truthiness (a running runner reports False)", "break", _D, "    if task_runner.completed is not None:\n        return True", "    if task_runner.completed:\n        return True", "O5.5"),
+    V("partition arguments through locals and keywords-free helper", "keep", _D, "    params_for_op = parameter_source.partition(client_index, task.clients)", "    slices = task.clients\n    params_for_op = parameter_source.partition(client_index, slices)"),
+    # loader: defaults passed by keyword; mixing validation through a helper
+    V("parallel defaults passed by keyword, reordered", "keep", _L,
+      "                    default_warmup_iterations,\n                    default_iterations,\n                    default_warmup_time_period,\n                    default_time_period,\n                    default_ramp_up_time_period,\n                    completed_by,\n",
+      "                    default_time_period=default_time_period,\n                    default_iterations=default_iterations,\n                    default_warmup_time_period=default_warmup_time_period,\n                    default_warmup_iterations=default_warmup_iterations,\n                    default_ramp_up_time_period=default_ramp_up_time_period,\n                    completed_by_name=completed_by,\n"),
+    V("parallel defaults passed by keyword, periods crossed", "break", _L,
+      "                    default_warmup_iterations,\n                    default_iterations,\n                    default_warmup_time_period,\n                    default_time_period,\n                    default_ramp_up_time_period,\n                    completed_by,\n",
+      "                    default_time_period=default_warmup_time_period,\n                    default_iterations=default_iterations,\n                    default_warmup_time_period=default_time_period,\n                    default_warmup_iterations=default_warmup_iterations,\n                    default_ramp_up_time_period=default_ramp_up_time_period,\n                    completed_by_name=completed_by,\n", "O5.5"),
+    [V("mixing validation through a helper method", "keep", _L, "        if task.warmup_iterations is not None and task.time_period is not None:", "        if self._both_given(task.warmup_iterations, task.time_period):"),
+     V("", "keep", _L, "    def _error(self, msg):\n", "    @staticmethod\n    def _both_given(a, b):\n        return a is not None and b is not None\n\n    def _error(self, msg):\n")],
+    [V("mixing validation helper tests the wrong side", "break", _L, "        if task.warmup_iterations is not None and task.time_period is not None:", "        if self._both_given(task.warmup_iterations, task.time_period):", "O5.5"),
+     V("", "break", _L, "    def _error(self, msg):\n", "    @staticmethod\n    def _both_given(a, b):\n        return a is not None and b is None\n\n    def _error(self, msg):\n")],
+    # executor: sleep-until and ramp-up wait in helper methods, loop invariants hoisted
+    [V("sleep-until extracted into a helper coroutine", "keep", _D, "                    rest = absolute_expected_schedule_time - time.perf_counter()\n                    if rest > 0:\n                        await asyncio.sleep(rest)\n", "                    await self._wait_until(absolute_expected_schedule_time)\n"),
+     V("", "keep", _D, "    async def __call__(self, *args, **kwargs):\n        any_task_completes_parent", "    @staticmethod\n    async def _wait_until(due):\n        rest = due - time.perf_counter()\n        if rest > 0:\n            await asyncio.sleep(rest)\n\n    async def __call__(self, *args, **kwargs):\n        any_task_completes_parent")],
+    [V("sleep-until helper, schedule anchored before the ramp-up wait (F40 in the refactored shape)", "break", _D, "                    rest = absolute_expected_schedule_time - time.perf_counter()\n                    if rest > 0:\n                        await asyncio.sleep(rest)\n", "                    await self._wait_until(total_start + expected_scheduled_time)\n", "O5.4"),
+     V("", "break", _D, "    async def __call__(self, *args, **kwargs):\n        any_task_completes_parent", "    @staticmethod\n    async def _wait_until(due):\n        rest = due - time.perf_counter()\n        if rest > 0:\n            await asyncio.sleep(rest)\n\n    async def __call__(self, *args, **kwargs):\n        any_task_completes_parent")],
+    [V("ramp-up wait extracted into a helper coroutine", "keep", _D, "        if rampup_wait_time:\n            self.logger.debug(\"client id [%s] waiting [%.2f]s for ramp-up.\", self.client_id, rampup_wait_time)\n            await asyncio.sleep(rampup_wait_time)\n", "        await self._ramp_up(rampup_wait_time)\n"),
+     V("", "keep", _D, "    async def __call__(self, *args, **kwargs):\n        any_task_completes_parent", "    async def _ramp_up(self, delay):\n        if delay:\n            self.logger.debug(\"client id [%s] waiting [%.2f]s for ramp-up.\", self.client_id, delay)\n            await asyncio.sleep(delay)\n\n    async def __call__(self, *args, **kwargs):\n        any_task_completes_parent")],
+    [V("ramp-up helper called inside the request loop (waits before every request)", "break", _D, "        if rampup_wait_time:\n            self.logger.debug(\"client id [%s] waiting [%.2f]s for ramp-up.\", self.client_id, rampup_wait_time)\n            await asyncio.sleep(rampup_wait_time)\n", "", "O5.4"),
+     V("", "break", _D, "                absolute_expected_schedule_time = schedule_start + expected_scheduled_time\n", "                await self._ramp_up(rampup_wait_time)\n                absolute_expected_schedule_time = schedule_start + expected_scheduled_time\n"),
+     V("", "break", _D, "    async def __call__(self, *args, **kwargs):\n        any_task_completes_parent", "    async def _ramp_up(self, delay):\n        if delay:\n            await asyncio.sleep(delay)\n\n    async def __call__(self, *args, **kwargs):\n        any_task_completes_parent")],
+    [V("timer start moved into the ramp-up helper after the sleep", "break", _D, "        self.schedule_handle.start()\n        rampup_wait_time = self.schedule_handle.ramp_up_wait_time\n        if rampup_wait_time:\n            self.logger.debug(\"client id [%s] waiting [%.2f]s for ramp-up.\", self.client_id, rampup_wait_time)\n            await asyncio.sleep(rampup_wait_time)\n",
+       "        rampup_wait_time = self.schedule_handle.ramp_up_wait_time\n        await self._ramp_up(rampup_wait_time)\n", "O5.4"),
+     V("", "break", _D, "    async def __call__(self, *args, **kwargs):\n        any_task_completes_parent", "    async def _ramp_up(self, delay):\n        if delay:\n            await asyncio.sleep(delay)\n        self.schedule_handle.start()\n\n    async def __call__(self, *args, **kwargs):\n        any_task_completes_parent")],
+    # loop controls: attributes renamed, intermediate property removed
+    V("iteration counter attribute renamed", "keep", _D, r"self\._it\b", "self._iteration", count=6, regex=True),
+    [V("iteration counter renamed, completion off by one", "break", _D, r"self\._it\b", "self._iteration", "O5.1", count=6, regex=True),
+     V("", "break", _D, "        return self._iteration >= self._total_iterations", "        return self._iteration + 1 >= self._total_iterations")],
+    V("time control: clock attribute renamed", "keep", _D, r"self\._now\b", "self._current", count=6, regex=True),
+    [V("time control: clock attribute renamed, wall clock in next()", "break", _D, r"self\._now\b", "self._current", "O5.2", count=6, regex=True),
+     V("", "break", _D, "    def next(self):\n        self._current = time.perf_counter()", "    def next(self):\n        self._current = self._start + (time.time() - self._wall_start)"),
+     V("", "break", _D, "        self._start = self._current\n", "        self._start = self._current\n        self._wall_start = time.time()\n")],
+    V("time control: elapsed inlined, helper property removed", "keep", _D, "        return metrics.SampleType.Warmup if self._elapsed < self._warmup_time_period else metrics.SampleType.Normal", "        return metrics.SampleType.Normal if self._now - self._start >= self._warmup_time_period else metrics.SampleType.Warmup"),
+    V("time control: progress measured from construction, not from start()", "break", _D, "        self._start = None\n        self._now = None\n\n    def start(self):\n        self._now = time.perf_counter()\n        self._start = self._now\n",
+      "        self._start = time.perf_counter()\n        self._now = self._start\n\n    def start(self):\n        self._now = time.perf_counter()\n", "O5.2"),
+    V("ramp-up wait through locals", "keep", _D, "            return ramp_up_time_period * (self.task_allocation.global_client_index / self.task_allocation.total_clients)", "            allocation = self.task_allocation\n            share = allocation.global_client_index / allocation.total_clients\n            return share * ramp_up_time_period"),
+    [V("time control: monotonic clock through an aliased import", "keep", _D, "import time\n", "import time\nfrom time import perf_counter as _clock\n"),
+     V("", "keep", _D, "        self._now = time.perf_counter()", "        self._now = _clock()", count=2)],
+    [V("time control: aliased import of the wall clock", "break", _D, "import time\n", "import time\nfrom time import time as _clock\n", "O5.2"),
+     V("", "break", _D, "        self._now = time.perf_counter()", "        self._now = _clock()", count=2)],
 ]
